@@ -7,28 +7,69 @@
 //! A second sweep goes the other way: every small type *structure* is written and parsed back.
 //! The inner-class split/join helpers are checked for being mutually inverse on every short name.
 //!
-//! Replay body format (`--replay`): `kind=desc|name|struct|split|join` plus `string=`/`parser=`/
-//! `parent=`/`inner=` lines.
+//! All text is `JavaStr` (semi-UTF-8: a lone surrogate is a legal character of a class-file name) and every
+//! comparison is lossless — byte for byte against what the reference built from the same bytes. The
+//! reference works on the bytes: every character the grammar gives a meaning to is ASCII, and no byte of a
+//! wider character is.
+//!
+//! Clauses and where they are decided
+//!   parse = grammar structure / refuses the rest ... `check_desc` (every space below)
+//!   write(parse(s)) = s ............................ `check_desc`
+//!   parse(write(t)) = t ............................ `check_struct`
+//!   name predicates = documentation ................ `check_name` (is_valid, three TryFroms, value kept, Display)
+//!   class name → descriptor (from_class & co.) ..... `check_class` (documented equivalence with `L` name `;`)
+//!   split/join mutually inverse .................... `check_split` (also = the documented cut), `check_join`
+//!
+//! Spaces (quick / thorough)
+//!   1. all strings ≤ 6 / 7 over `BDLa/;[()V.$` → descriptors and names
+//!   2. all strings ≤ 6 / 8 over `a.;[/<>$` → names
+//!   3. `<init>`/`<clinit>` one-edit neighbours; explicit probes (all primitives, realistic descriptors)
+//!   4. all strings ≤ 5 / 6 over `L;[/()VI` + é 日 𝔘 U+D800 U+DC00 U+FFFD → descriptors and names
+//!   5. all strings ≤ 5 / 6 over `.;[/<>$a\␠` + the same six wide characters → names
+//!   6. EVERY code point U+0000..=U+10FFFF (surrogates included) in 8 / 20 descriptor contexts, 4 / 13 name
+//!      contexts and 4 / 10 split contexts
+//!   7. ladders: every dimension count 0..=1030 / 2100 × 8 bases × 5 placements (descriptors and names);
+//!      4096 … 2^20 brackets (must be refused without recursion or blow-up); 0..=300 / 1200 parameters;
+//!      names of k = 0..=200 / 400 `a` with one wide character last / last but one / first, in 16 descriptor
+//!      contexts (accepted and refused: the error paths quote the text) and 8 name contexts, split and joined
+//!   8. structures: every type over 8 primitives + 8 / 24 odd class names × dimensions {1,2,254,255}: fields,
+//!      returns, methods of ≤ 2 parameters (2 parameters: quick over the reduced type set), 3 parameters over
+//!      six types; every type as a class name through from_class / from_obj_class / from_arr_class /
+//!      dimension / ReturnDescriptor::from
+//!   9. split/join: all valid names ≤ 6 / 8 over the name alphabet and ≤ 4 / 5 over the wide name alphabet
+//!  10. the named constants (`MethodName::INIT`, `CLINIT`, `ObjClassName::JAVA_LANG_OBJECT`)
+//!
+//! Where the statement is silent nothing is demanded: a method descriptor whose parameters need more than 255
+//! slots (§4.3.3 side condition, not grammar) may be refused or read; `Display` of a name that is not UTF-8 may
+//! fail or substitute; `write` of a structure `parse` should never have produced may do anything but panic.
+//!
+//! Replay body format (`--replay`): `kind=desc|name|struct|class|split|join` plus `string=`/`parser=`/
+//! `parent=`/`inner=` lines; strings are escaped (`\u{d800}`; printable ASCII other than `\` verbatim).
 
 use std::collections::{BTreeMap, BTreeSet};
+use std::fmt::Write as _;
 use duke::tree::class::{ArrClassName, ArrClassNameSlice, ClassName, ClassNameSlice, ObjClassName, ObjClassNameSlice};
-use duke::tree::descriptor::{ArrayType, ParsedFieldDescriptor, ParsedMethodDescriptor, ParsedReturnDescriptor, ReturnDescriptorSlice, Type};
-use duke::tree::field::{FieldDescriptorSlice, FieldName, FieldNameSlice};
+use duke::tree::descriptor::{ArrayType, ParsedFieldDescriptor, ParsedMethodDescriptor, ParsedReturnDescriptor, ReturnDescriptor, ReturnDescriptorSlice, Type};
+use duke::tree::field::{FieldDescriptor, FieldDescriptorSlice, FieldName, FieldNameSlice};
 use duke::tree::method::code::{LocalVariableName, LocalVariableNameSlice};
 use duke::tree::method::{MethodDescriptorSlice, MethodName, MethodNameSlice, ParameterName, ParameterNameSlice};
 use java_string::{JavaStr, JavaString};
 use rayon::prelude::*;
 use vcore::{json, Ctx, Panic, Value};
 
+#[path = "c18/spaces.rs"]
+mod spaces;
+use spaces::{cps, esc, jstr, unesc};
+
 // ---------------------------------------------------------------------------------------------
 // reference: JVMS §4.3.2 / §4.3.3 descriptors, §4.2.1 / §4.2.2 names — written from the specification
 
 /// The structure the grammar assigns to a `FieldType`. `Arr(n, e)`: `n ≥ 1` dimensions of the
-/// non-array element `e`.
+/// non-array element `e`. The class name is kept byte for byte.
 #[derive(Clone, Debug, PartialEq, Eq, Hash)]
 enum R {
 	Prim(char),
-	Obj(String),
+	Obj(JavaString),
 	Arr(u32, Box<R>),
 }
 
@@ -110,36 +151,43 @@ fn ref_class_name_in_descriptor(name: &[u8]) -> Result<(), Why> {
 	Ok(())
 }
 
+/// The bytes between two ASCII characters of a semi-UTF-8 string are semi-UTF-8 again.
+fn text(bytes: &[u8]) -> JavaString {
+	match JavaStr::from_semi_utf8(bytes) {
+		Ok(s) => s.to_owned(),
+		Err(_) => vcore::machinery_fail("a cut at ASCII characters broke a character"),
+	}
+}
+
 /// FieldType: BaseType | `L` ClassName `;` | `[` ComponentType. Works on bytes: every structural
-/// character is ASCII, so cutting at them keeps UTF-8 intact.
+/// character is ASCII, so cutting at them keeps the encoding intact. The brackets are counted, not recursed
+/// on (the strings explored go up to 2^20 of them); as in the grammar the component is judged first.
 fn ref_field_type(s: &[u8], pos: &mut usize) -> Result<R, Why> {
+	let mut dims = 0u32;
+	while s.get(*pos) == Some(&b'[') {
+		dims += 1;
+		*pos += 1;
+	}
 	let Some(&c) = s.get(*pos) else { return Err(Why::AbruptEnd) };
 	*pos += 1;
-	match c {
-		b'B' | b'C' | b'D' | b'F' | b'I' | b'J' | b'S' | b'Z' => Ok(R::Prim(c as char)),
+	let element = match c {
+		b'B' | b'C' | b'D' | b'F' | b'I' | b'J' | b'S' | b'Z' => R::Prim(c as char),
 		b'L' => {
 			let rest = &s[*pos..];
 			let Some(semi) = rest.iter().position(|b| *b == b';') else { return Err(Why::MissingSemicolon) };
 			let name = &rest[..semi];
 			*pos += semi + 1;
 			ref_class_name_in_descriptor(name)?;
-			Ok(R::Obj(String::from_utf8_lossy(name).into_owned()))
+			R::Obj(text(name))
 		},
-		b'[' => {
-			let component = ref_field_type(s, pos)?;
-			let (n, e) = match component {
-				R::Arr(n, e) => (n + 1, e),
-				e => (1, Box::new(e)),
-			};
-			// §4.3.2: an array type descriptor is valid only if it represents 255 or fewer dimensions
-			if n > 255 {
-				return Err(Why::TooManyDims);
-			}
-			Ok(R::Arr(n, e))
-		},
-		b'V' => Err(Why::Void),
-		_ => Err(Why::BadChar),
+		b'V' => return Err(Why::Void),
+		_ => return Err(Why::BadChar),
+	};
+	// §4.3.2: an array type descriptor is valid only if it represents 255 or fewer dimensions
+	if dims > 255 {
+		return Err(Why::TooManyDims);
 	}
+	Ok(if dims == 0 { element } else { R::Arr(dims, Box::new(element)) })
 }
 
 /// What a descriptor of any of the three kinds means: `params` is `Some` for method descriptors only,
@@ -151,11 +199,11 @@ struct Shape {
 }
 
 impl Shape {
-	fn class_names(&self) -> impl Iterator<Item = &str> {
+	fn class_names(&self) -> impl Iterator<Item = &JavaStr> {
 		self.params.iter().flatten().chain(self.ret.iter()).filter_map(|t| match t {
-			R::Obj(n) => Some(n.as_str()),
+			R::Obj(n) => Some(n.as_java_str()),
 			R::Arr(_, e) => match &**e {
-				R::Obj(n) => Some(n.as_str()),
+				R::Obj(n) => Some(n.as_java_str()),
 				_ => None,
 			},
 			R::Prim(_) => None,
@@ -208,12 +256,12 @@ fn ref_return(s: &[u8], pos: &mut usize) -> Result<Option<R>, Why> {
 	}
 }
 
-fn ref_print_type(r: &R, out: &mut String) {
+fn ref_print_type(r: &R, out: &mut JavaString) {
 	match r {
 		R::Prim(c) => out.push(*c),
 		R::Obj(n) => {
 			out.push('L');
-			out.push_str(n);
+			out.push_java_str(n);
 			out.push(';');
 		},
 		R::Arr(n, e) => {
@@ -225,8 +273,8 @@ fn ref_print_type(r: &R, out: &mut String) {
 	}
 }
 
-fn ref_print(shape: &Shape) -> String {
-	let mut out = String::new();
+fn ref_print(shape: &Shape) -> JavaString {
+	let mut out = JavaString::new();
 	if let Some(params) = &shape.params {
 		out.push('(');
 		for p in params {
@@ -241,28 +289,28 @@ fn ref_print(shape: &Shape) -> String {
 	out
 }
 
-/// JVMS §4.2.2 unqualified name.
-fn ref_unqualified(s: &str) -> bool {
-	!s.is_empty() && !s.chars().any(|c| c == '.' || c == ';' || c == '[' || c == '/')
+/// JVMS §4.2.2 unqualified name: at least one code point, none of `.` `;` `[` `/`.
+fn ref_unqualified(s: &[u8]) -> bool {
+	!s.is_empty() && !s.iter().any(|b| matches!(b, b'.' | b';' | b'[' | b'/'))
 }
 
 /// JVMS §4.2.2 method name: `<init>`, `<clinit>` or an unqualified name without `<` and `>`.
-fn ref_method_name(s: &str) -> bool {
-	s == "<init>" || s == "<clinit>" || (ref_unqualified(s) && !s.contains('<') && !s.contains('>'))
+fn ref_method_name(s: &[u8]) -> bool {
+	s == b"<init>" || s == b"<clinit>" || (ref_unqualified(s) && !s.contains(&b'<') && !s.contains(&b'>'))
 }
 
 /// JVMS §4.2.1 binary name of a class or interface in internal form.
-fn ref_obj_class_name(s: &str) -> bool {
-	s.split('/').all(ref_unqualified)
+fn ref_obj_class_name(s: &[u8]) -> bool {
+	s.split(|b| *b == b'/').all(ref_unqualified)
 }
 
 /// "Array class names always start with `[` followed by a field descriptor" (doc of `ArrClassName`),
 /// i.e. the string is an array-type field descriptor.
-fn ref_arr_class_name(s: &str) -> Result<(), &'static str> {
-	if !s.starts_with('[') {
+fn ref_arr_class_name(s: &[u8]) -> Result<(), &'static str> {
+	if s.first() != Some(&b'[') {
 		return Err("undocumented");
 	}
-	match ref_parse(FIELD, s.as_bytes()) {
+	match ref_parse(FIELD, s) {
 		Ok(_) => Ok(()),
 		Err(Why::TooManyDims) => Err("array-over-255-dimensions"),
 		Err(_) => Err("array-descriptor-invalid"),
@@ -272,11 +320,11 @@ fn ref_arr_class_name(s: &str) -> Result<(), &'static str> {
 const NAME_TYPES: [&str; 7] = ["ClassName", "ArrClassName", "ObjClassName", "FieldName", "MethodName", "ParameterName", "LocalVariableName"];
 
 /// What the documentation of name type `k` says about `s`: `Ok` = valid, `Err(kind)` = not valid.
-fn ref_name(k: usize, s: &str) -> Result<(), &'static str> {
+fn ref_name(k: usize, s: &[u8]) -> Result<(), &'static str> {
 	let plain = |b: bool| if b { Ok(()) } else { Err("undocumented") };
 	match k {
 		// "can both be an array class name as allowed by ArrClassName and an object class name as allowed by ObjClassName"
-		0 => if s.starts_with('[') { ref_arr_class_name(s) } else { plain(ref_obj_class_name(s)) },
+		0 => if s.first() == Some(&b'[') { ref_arr_class_name(s) } else { plain(ref_obj_class_name(s)) },
 		1 => ref_arr_class_name(s),
 		2 => plain(ref_obj_class_name(s)),
 		3 | 5 | 6 => plain(ref_unqualified(s)),
@@ -285,12 +333,20 @@ fn ref_name(k: usize, s: &str) -> Result<(), &'static str> {
 	}
 }
 
+/// Doc of `get_inner_class_name` / `get_inner_class_parent`: the inner class name is the part after the last `$`
+/// in the last (`/`-separated) section, the parent the part before that `$`. Both are typed as object class names,
+/// so a cut that leaves one side of the `$` empty within the section is no split.
+fn ref_split(x: &[u8]) -> Option<(&[u8], &[u8])> {
+	let section = x.iter().rposition(|b| *b == b'/').map_or(0, |p| p + 1);
+	let dollar = section + x[section..].iter().rposition(|b| *b == b'$')?;
+	if dollar == section || dollar + 1 == x.len() {
+		return None;
+	}
+	Some((&x[..dollar], &x[dollar + 1..]))
+}
+
 // ---------------------------------------------------------------------------------------------
 // real code adapters
-
-fn lossy(s: &JavaStr) -> String {
-	s.as_str_lossy().into_owned()
-}
 
 fn real_to_r(t: &Type) -> R {
 	match t {
@@ -302,7 +358,7 @@ fn real_to_r(t: &Type) -> R {
 		Type::J => R::Prim('J'),
 		Type::S => R::Prim('S'),
 		Type::Z => R::Prim('Z'),
-		Type::Object(c) => R::Obj(lossy(c.as_inner())),
+		Type::Object(c) => R::Obj(c.as_inner().to_owned()),
 		Type::Array(n, a) => R::Arr(*n as u32, Box::new(match a {
 			ArrayType::B => R::Prim('B'),
 			ArrayType::C => R::Prim('C'),
@@ -312,7 +368,7 @@ fn real_to_r(t: &Type) -> R {
 			ArrayType::J => R::Prim('J'),
 			ArrayType::S => R::Prim('S'),
 			ArrayType::Z => R::Prim('Z'),
-			ArrayType::Object(c) => R::Obj(lossy(c.as_inner())),
+			ArrayType::Object(c) => R::Obj(c.as_inner().to_owned()),
 		})),
 	}
 }
@@ -329,7 +385,7 @@ fn r_to_real(r: &R) -> Result<Type, String> {
 		R::Prim('S') => Type::S,
 		R::Prim('Z') => Type::Z,
 		R::Prim(c) => return Err(format!("no primitive {c}")),
-		R::Obj(n) => Type::Object(ObjClassName::try_from(JavaString::from(n.as_str())).map_err(|e| format!("{e:#}"))?),
+		R::Obj(n) => Type::Object(ObjClassName::try_from(n.clone()).map_err(|e| format!("{e:#}"))?),
 		R::Arr(n, e) => {
 			let n = u8::try_from(*n).map_err(|_| "dimension does not fit".to_owned())?;
 			Type::Array(n, match &**e {
@@ -341,7 +397,7 @@ fn r_to_real(r: &R) -> Result<Type, String> {
 				R::Prim('J') => ArrayType::J,
 				R::Prim('S') => ArrayType::S,
 				R::Prim('Z') => ArrayType::Z,
-				R::Obj(name) => ArrayType::Object(ClassName::try_from(JavaString::from(name.as_str())).map_err(|e| format!("{e:#}"))?),
+				R::Obj(name) => ArrayType::Object(ClassName::try_from(name.clone()).map_err(|e| format!("{e:#}"))?),
 				other => return Err(format!("no array element {other:?}")),
 			})
 		},
@@ -362,12 +418,12 @@ impl Parsed {
 			Parsed::R(p) => Shape { params: None, ret: p.0.as_ref().map(real_to_r) },
 		}
 	}
-	/// real `write`
-	fn write(&self) -> String {
+	/// real `write`, the written descriptor byte for byte
+	fn write(&self) -> JavaString {
 		match self {
-			Parsed::F(p) => lossy(p.write().as_inner()),
-			Parsed::M(p) => lossy(p.write().as_inner()),
-			Parsed::R(p) => lossy(p.write().as_inner()),
+			Parsed::F(p) => p.write().into_inner(),
+			Parsed::M(p) => p.write().into_inner(),
+			Parsed::R(p) => p.write().into_inner(),
 		}
 	}
 	fn same(&self, other: &Parsed) -> bool {
@@ -381,8 +437,7 @@ impl Parsed {
 }
 
 /// real `parse` of descriptor kind `kind`; `None` = refused (by the `TryFrom` of the slice type or by `parse`)
-fn real_parse(kind: usize, s: &str) -> Option<Parsed> {
-	let js = JavaStr::from_str(s);
+fn real_parse(kind: usize, js: &JavaStr) -> Option<Parsed> {
 	match kind {
 		FIELD => <&FieldDescriptorSlice>::try_from(js).ok().and_then(|d| d.parse().ok()).map(Parsed::F),
 		METHOD => <&MethodDescriptorSlice>::try_from(js).ok().and_then(|d| d.parse().ok()).map(Parsed::M),
@@ -409,7 +464,8 @@ fn shape_to_real(kind: usize, shape: &Shape) -> Result<Parsed, String> {
 }
 
 /// What the real name type `k` does with `s`: `is_valid`, and for each of the three `TryFrom`s whether it
-/// accepted (`Some(faithful)`: the accepted value holds and prints exactly `s`).
+/// accepted (`Some(faithful)`: the accepted value holds exactly `s` and, where `s` is UTF-8, displays as `s`;
+/// nothing says what `Display` does with a lone surrogate, so there only a panic would be reported).
 #[derive(Debug, PartialEq, Eq)]
 struct NameObs {
 	is_valid: bool,
@@ -418,20 +474,31 @@ struct NameObs {
 	owned_from_ref: Option<bool>,
 }
 
+fn shown_as(v: &dyn std::fmt::Display, js: &JavaStr) -> bool {
+	let mut out = String::new();
+	let r = write!(out, "{v}");
+	match js.as_str() {
+		Ok(utf8) => r.is_ok() && out == utf8,
+		Err(_) => true,
+	}
+}
+
 macro_rules! name_obs {
 	($owned:ty, $slice:ty, $s:expr) => {{
-		let s: &str = $s;
-		let js: &JavaStr = JavaStr::from_str(s);
+		let js: &JavaStr = $s;
 		NameObs {
 			is_valid: <$owned>::is_valid(js),
-			slice: <&$slice>::try_from(js).ok().map(|v| v.as_inner() == js && v.to_string() == s),
-			owned: <$owned>::try_from(js.to_owned()).ok().map(|v| v.as_inner() == js && v.to_string() == s),
+			slice: <&$slice>::try_from(js).ok().map(|v| v.as_inner() == js && shown_as(&v, js)),
+			owned: <$owned>::try_from(js.to_owned()).ok().map(|v| {
+				let held = v.as_inner() == js && shown_as(&v, js);
+				held && v.into_inner().as_java_str() == js
+			}),
 			owned_from_ref: <$owned>::try_from(js).ok().map(|v| v.as_inner() == js),
 		}
 	}};
 }
 
-fn real_name(k: usize, s: &str) -> NameObs {
+fn real_name(k: usize, s: &JavaStr) -> NameObs {
 	match k {
 		0 => name_obs!(ClassName, ClassNameSlice, s),
 		1 => name_obs!(ArrClassName, ArrClassNameSlice, s),
@@ -450,19 +517,33 @@ fn site_file(p: &Panic) -> String {
 	f.rsplit_once("/repo/").map(|(_, rest)| rest).unwrap_or(f).to_owned()
 }
 
+/// How a string is quoted in a message: escaped, and cut in the middle when it is one of the long ones.
+fn q(s: &JavaStr) -> String {
+	let e = esc(s);
+	if e.len() <= 400 {
+		return format!("\"{e}\"");
+	}
+	let head: String = e.chars().take(150).collect();
+	let tail: String = e.chars().rev().take(150).collect::<Vec<char>>().into_iter().rev().collect();
+	format!("\"{head}…({} bytes in all)…{tail}\"", s.len())
+}
+
 // ---------------------------------------------------------------------------------------------
 // counters
 
 #[derive(Clone, Default)]
 struct Tally {
-	/// executions of real /repo functions (parse, write, is_valid, try_from, split, join)
+	/// executions of real /repo functions (parse, write, is_valid, try_from, split, join, from_class, …)
 	evals: u64,
 	d_both_accept: [u64; 3],
 	d_both_reject: [[u64; NWHY]; 3],
 	d_real_only: [[u64; NWHY]; 3],
 	d_ref_only: [u64; 3],
 	d_rewritten_same: [u64; 3],
+	/// … of which the string is not UTF-8 (it holds a lone surrogate)
+	d_rewritten_same_not_utf8: [u64; 3],
 	n_both_accept: [u64; 7],
+	n_both_accept_not_utf8: [u64; 7],
 	n_both_reject: [u64; 7],
 	n_real_only: [u64; 7],
 	n_ref_only: [u64; 7],
@@ -487,6 +568,7 @@ impl Tally {
 			self.d_both_accept[k] += o.d_both_accept[k];
 			self.d_ref_only[k] += o.d_ref_only[k];
 			self.d_rewritten_same[k] += o.d_rewritten_same[k];
+			self.d_rewritten_same_not_utf8[k] += o.d_rewritten_same_not_utf8[k];
 			for w in 0..NWHY {
 				self.d_both_reject[k][w] += o.d_both_reject[k][w];
 				self.d_real_only[k][w] += o.d_real_only[k][w];
@@ -494,6 +576,7 @@ impl Tally {
 		}
 		for k in 0..7 {
 			self.n_both_accept[k] += o.n_both_accept[k];
+			self.n_both_accept_not_utf8[k] += o.n_both_accept_not_utf8[k];
 			self.n_both_reject[k] += o.n_both_reject[k];
 			self.n_real_only[k] += o.n_real_only[k];
 			self.n_ref_only[k] += o.n_ref_only[k];
@@ -508,6 +591,9 @@ impl Tally {
 	}
 	fn ref_accepts_name(&self, k: usize) -> u64 {
 		self.n_both_accept[k] + self.n_ref_only[k]
+	}
+	fn desc_rejects(&self, k: usize) -> u64 {
+		self.d_both_reject[k].iter().sum()
 	}
 }
 
@@ -524,22 +610,22 @@ fn report(ctx: &Ctx, key: &str, what: impl FnOnce() -> String, replay: impl FnOn
 // oracles
 
 /// One string through the three descriptor parsers.
-fn check_desc(ctx: &Ctx, t: &mut Tally, s: &str) {
+fn check_desc(ctx: &Ctx, t: &mut Tally, s: &JavaStr) {
 	for kind in 0..3 {
 		let pname = PARSERS[kind];
-		let replay = || format!("kind=desc\nparser={pname}\nstring={s}");
+		let replay = || format!("kind=desc\nparser={pname}\nstring={}", esc(s));
 		let want = ref_parse(kind, s.as_bytes());
 		if let Ok(shape) = &want {
 			// cross-check of the reference itself: the grammar is unambiguous, printing its reading gives the string back
-			if ref_print(shape) != s {
-				vcore::machinery_fail(&format!("reference printer/recogniser disagree on {s:?}"));
+			if ref_print(shape) != *s {
+				vcore::machinery_fail(&format!("reference printer/recogniser disagree on {}", q(s)));
 			}
 		}
 		t.evals += 1;
 		let got = match vcore::guard(|| real_parse(kind, s)) {
 			Ok(g) => g,
 			Err(p) => {
-				report(ctx, &format!("desc.parse:{pname}:panic@{}", site_file(&p)), || format!("{pname} descriptor parse({s:?}) panicked at {}: {}", p.site, p.msg), replay);
+				report(ctx, &format!("desc.parse:{pname}:panic@{}", site_file(&p)), || format!("{pname} descriptor parse({}) panicked at {}: {}", q(s), p.site, p.msg), replay);
 				continue;
 			},
 		};
@@ -548,67 +634,93 @@ fn check_desc(ctx: &Ctx, t: &mut Tally, s: &str) {
 				t.d_both_accept[kind] += 1;
 				let seen = parsed.shape();
 				if seen != shape {
-					report(ctx, &format!("desc.parse:{pname}:wrong-structure"), || format!("{pname} descriptor parse({s:?}) = {seen:?}, the grammar assigns {shape:?}"), replay);
+					report(ctx, &format!("desc.parse:{pname}:wrong-structure"), || format!("{pname} descriptor parse({}) = {seen:?}, the grammar assigns {shape:?}", q(s)), replay);
 				}
 				t.evals += 1;
 				match vcore::guard(|| parsed.write()) {
-					Ok(w) if w == s => t.d_rewritten_same[kind] += 1,
-					Ok(w) => report(ctx, &format!("desc.write:{pname}:not-the-original-string"), || format!("{pname} descriptor write(parse({s:?})) = {w:?}"), replay),
-					Err(p) => report(ctx, &format!("desc.write:{pname}:panic@{}", site_file(&p)), || format!("{pname} descriptor write(parse({s:?})) panicked at {}: {}", p.site, p.msg), replay),
+					Ok(w) if w == *s => {
+						t.d_rewritten_same[kind] += 1;
+						if s.as_str().is_err() {
+							t.d_rewritten_same_not_utf8[kind] += 1;
+						}
+					},
+					Ok(w) => report(ctx, &format!("desc.write:{pname}:not-the-original-string"), || format!("{pname} descriptor write(parse({})) = {}", q(s), q(&w)), replay),
+					Err(p) => report(ctx, &format!("desc.write:{pname}:panic@{}", site_file(&p)), || format!("{pname} descriptor write(parse({})) panicked at {}: {}", q(s), p.site, p.msg), replay),
 				}
 			},
 			(Some(parsed), Err(why)) => {
 				t.d_real_only[kind][why as usize] += 1;
-				report(ctx, why.accepts_key(), || format!("{pname} descriptor parse({s:?}) succeeded with {:?}; the string is outside the JVMS grammar ({})", parsed.shape(), why.name()), replay);
+				report(ctx, why.accepts_key(), || format!("{pname} descriptor parse({}) succeeded with {:?}; the string is outside the JVMS grammar ({})", q(s), parsed.shape(), why.name()), replay);
 				// outside the grammar nothing is demanded of write except that it does not panic
 				t.evals += 1;
 				if let Err(p) = vcore::guard(|| parsed.write()) {
 					// keyed by what is visibly wrong with the structure handed to write, not by the first thing wrong with the string
 					let cause = if parsed.shape().class_names().any(|n| n.starts_with('[')) { "class-name-starting-with-bracket".to_owned() } else { format!("after-accepting:{}", why.name()) };
-					report(ctx, &format!("desc.write:panic@{}:{cause}", site_file(&p)), || format!("{pname} descriptor parse({s:?}) succeeded and write() of the result panicked at {}: {}", p.site, p.msg), replay);
+					report(ctx, &format!("desc.write:panic@{}:{cause}", site_file(&p)), || format!("{pname} descriptor parse({}) succeeded and write() of the result panicked at {}: {}", q(s), p.site, p.msg), replay);
 				}
 			},
+			// §4.3.3 adds a side condition the grammar does not have (parameters of a total length of 255 or less, where
+			// long and double count two); the statement is silent about it, so refusing such a descriptor is as good as
+			// reading it — 255 itself must be read: a static method may have it
+			(None, Ok(shape)) if kind == METHOD && parameter_slots(&shape) > 255 => t.bump("desc:method:refused-for-more-than-255-parameter-slots"),
 			(None, Ok(shape)) => {
 				t.d_ref_only[kind] += 1;
-				report(ctx, &format!("desc.parse:{pname}:rejects-valid"), || format!("{pname} descriptor parse({s:?}) failed; the grammar reads it as {shape:?}"), replay);
+				report(ctx, &format!("desc.parse:{pname}:rejects-valid"), || format!("{pname} descriptor parse({}) failed; the grammar reads it as {shape:?}", q(s)), replay);
 			},
 			(None, Err(why)) => t.d_both_reject[kind][why as usize] += 1,
 		}
 	}
 }
 
+fn parameter_slots(shape: &Shape) -> usize {
+	shape.params.iter().flatten().map(|p| if matches!(p, R::Prim('D' | 'J')) { 2 } else { 1 }).sum()
+}
+
 /// One string through the seven name types.
-fn check_name(ctx: &Ctx, t: &mut Tally, s: &str) {
+fn check_name(ctx: &Ctx, t: &mut Tally, s: &JavaStr) {
 	for k in 0..7 {
 		let tname = NAME_TYPES[k];
-		let replay = || format!("kind=name\ntype={tname}\nstring={s}");
+		let replay = || format!("kind=name\ntype={tname}\nstring={}", esc(s));
 		t.evals += 4;
 		let obs = match vcore::guard(|| real_name(k, s)) {
 			Ok(o) => o,
 			Err(p) => {
-				report(ctx, &format!("name:{tname}:panic@{}", site_file(&p)), || format!("{tname} validity check of {s:?} panicked at {}: {}", p.site, p.msg), replay);
+				report(ctx, &format!("name:{tname}:panic@{}", site_file(&p)), || format!("{tname} validity check of {} panicked at {}: {}", q(s), p.site, p.msg), replay);
 				continue;
 			},
 		};
 		let tf = [obs.slice, obs.owned, obs.owned_from_ref];
 		if tf.iter().any(|x| x.is_some() != obs.is_valid) {
-			report(ctx, &format!("name:{tname}:try_from-disagrees-with-is_valid"), || format!("{tname} on {s:?}: {obs:?}"), replay);
+			report(ctx, &format!("name:{tname}:try_from-disagrees-with-is_valid"), || format!("{tname} on {}: {obs:?}", q(s)), replay);
 		}
 		if tf.iter().any(|x| *x == Some(false)) {
-			report(ctx, &format!("name:{tname}:accepted-value-differs"), || format!("{tname}::try_from({s:?}) succeeded but holds or prints a different string: {obs:?}"), replay);
+			report(ctx, &format!("name:{tname}:accepted-value-differs"), || format!("{tname}::try_from({}) succeeded but holds or prints a different string: {obs:?}", q(s)), replay);
 		}
-		match (obs.is_valid, ref_name(k, s)) {
-			(true, Ok(())) => t.n_both_accept[k] += 1,
+		match (obs.is_valid, ref_name(k, s.as_bytes())) {
+			(true, Ok(())) => {
+				t.n_both_accept[k] += 1;
+				if s.as_str().is_err() {
+					t.n_both_accept_not_utf8[k] += 1;
+				}
+			},
 			(false, Err(_)) => t.n_both_reject[k] += 1,
 			(true, Err(kind)) => {
 				t.n_real_only[k] += 1;
-				report(ctx, &format!("name:{tname}:accepts:{kind}"), || format!("{tname}::is_valid({s:?}) = true, its documentation does not allow the string ({kind})"), replay);
+				report(ctx, &format!("name:{tname}:accepts:{kind}"), || format!("{tname}::is_valid({}) = true, its documentation does not allow the string ({kind})", q(s)), replay);
 			},
 			(false, Ok(())) => {
 				t.n_ref_only[k] += 1;
-				report(ctx, &format!("name:{tname}:rejects-documented"), || format!("{tname}::is_valid({s:?}) = false, its documentation allows the string"), replay);
+				report(ctx, &format!("name:{tname}:rejects-documented"), || format!("{tname}::is_valid({}) = false, its documentation allows the string", q(s)), replay);
 			},
 		}
+	}
+}
+
+fn round_trip_counter(kind: usize) -> &'static str {
+	match kind {
+		FIELD => "struct:field:round-trip",
+		METHOD => "struct:method:round-trip",
+		_ => "struct:return:round-trip",
 	}
 }
 
@@ -616,7 +728,7 @@ fn check_name(ctx: &Ctx, t: &mut Tally, s: &str) {
 fn check_struct(ctx: &Ctx, t: &mut Tally, kind: usize, shape: &Shape) {
 	let pname = PARSERS[kind];
 	let text = ref_print(shape);
-	let replay = || format!("kind=struct\nparser={pname}\nstring={text}");
+	let replay = || format!("kind=struct\nparser={pname}\nstring={}", esc(&text));
 	match ref_parse(kind, text.as_bytes()) {
 		Ok(back) if &back == shape => {},
 		other => vcore::machinery_fail(&format!("reference recogniser does not read back its own print of {shape:?}: {other:?}")),
@@ -637,98 +749,215 @@ fn check_struct(ctx: &Ctx, t: &mut Tally, kind: usize, shape: &Shape) {
 		},
 	};
 	if written != text {
-		report(ctx, &format!("desc.write:{pname}:wrong-string"), || format!("{pname} descriptor write({shape:?}) = {written:?}, the grammar spells it {text:?}"), replay);
+		report(ctx, &format!("desc.write:{pname}:wrong-string"), || format!("{pname} descriptor write({shape:?}) = {}, the grammar spells it {}", q(&written), q(&text)), replay);
 	}
 	t.evals += 1;
 	match vcore::guard(|| real_parse(kind, &written)) {
 		Ok(Some(back)) => {
 			if back.same(&real) && back.shape() == *shape {
-				t.bump(match kind { FIELD => "struct:field:round-trip", METHOD => "struct:method:round-trip", _ => "struct:return:round-trip" });
+				t.bump(round_trip_counter(kind));
+				if text.as_str().is_err() {
+					t.bump("struct:round-trip-of-a-text-that-is-not-utf8");
+				}
 			} else {
-				report(ctx, &format!("desc.write:{pname}:parse-of-written-differs"), || format!("{pname} descriptor parse(write(t)) = {:?} for t = {shape:?} (written {written:?})", back.shape()), replay);
+				report(ctx, &format!("desc.write:{pname}:parse-of-written-differs"), || format!("{pname} descriptor parse(write(t)) = {:?} for t = {shape:?} (written {})", back.shape(), q(&written)), replay);
 			}
 		},
-		Ok(None) => report(ctx, &format!("desc.write:{pname}:written-not-parseable"), || format!("{pname} descriptor parse(write(t)) failed for t = {shape:?} (written {written:?})"), replay),
-		Err(p) => report(ctx, &format!("desc.parse:{pname}:panic@{}", site_file(&p)), || format!("{pname} descriptor parse({written:?}) panicked at {}: {}", p.site, p.msg), replay),
+		Ok(None) => report(ctx, &format!("desc.write:{pname}:written-not-parseable"), || format!("{pname} descriptor parse(write(t)) failed for t = {shape:?} (written {})", q(&written)), replay),
+		Err(p) => report(ctx, &format!("desc.parse:{pname}:panic@{}", site_file(&p)), || format!("{pname} descriptor parse({}) panicked at {}: {}", q(&written), p.site, p.msg), replay),
 	}
 }
 
-fn obj(s: &str) -> Option<&ObjClassNameSlice> {
-	<&ObjClassNameSlice>::try_from(JavaStr::from_str(s)).ok()
+/// What the class-name → descriptor constructors made of a class name: the descriptor text of each, the dimension
+/// an array class name reports, the text after `ReturnDescriptor::from`.
+struct ClassObs {
+	from_class: JavaString,
+	from_specific: JavaString,
+	dimension: Option<u8>,
+	as_return: JavaString,
+	/// the owned conversions: (into_arr, into_obj) of the class name, and the name after going to the specific type and back
+	owned_split: (Option<JavaString>, Option<JavaString>),
+	back_to_class_name: JavaString,
 }
 
-/// `join(split(x)) == x` for a valid object class name `x`.
-fn check_split(ctx: &Ctx, t: &mut Tally, x: &str) {
-	let replay = || format!("kind=split\nstring={x}");
-	let Some(xs) = obj(x) else { return }; // refusal of a valid name is reported by check_name
-	t.evals += 1;
-	let parts = match vcore::guard(|| xs.split_inner_class_parent_and_name().map(|(p, i)| (p.to_owned(), i.to_owned()))) {
-		Ok(p) => p,
+/// One type as a class name (documentation: an object class name `n` has the descriptor `L` `n` `;`, an array
+/// class name is its own descriptor, `dimension` is the number of dimensions, a field descriptor is a return descriptor).
+fn check_class(ctx: &Ctx, t: &mut Tally, r: &R) {
+	let (name, dims): (JavaString, Option<u32>) = match r {
+		R::Prim(_) => return,
+		R::Obj(n) => (n.clone(), None),
+		R::Arr(d, _) => {
+			let mut s = JavaString::new();
+			ref_print_type(r, &mut s);
+			(s, Some(*d))
+		},
+	};
+	let mut want = JavaString::new();
+	ref_print_type(r, &mut want);
+	let replay = || format!("kind=class\nstring={}", esc(&want));
+	let Ok(class_name) = <&ClassNameSlice>::try_from(name.as_java_str()) else {
+		report(ctx, "class:valid-class-name-refused", || format!("ClassName refuses {}", q(&name)), replay);
+		return;
+	};
+	t.evals += 7;
+	let obs = vcore::guard(|| {
+		let from_class = FieldDescriptor::from_class(class_name);
+		let (from_specific, dimension) = match class_name.as_arr_and_obj() {
+			Ok(arr) => (FieldDescriptor::from_arr_class(arr), Some(arr.dimension())),
+			Err(obj) => (FieldDescriptor::from_obj_class(obj), None),
+		};
+		let owned = class_name.to_owned();
+		ClassObs {
+			from_class: from_class.clone().into_inner(),
+			from_specific: from_specific.into_inner(),
+			dimension,
+			as_return: ReturnDescriptor::from(from_class).into_inner(),
+			owned_split: (owned.clone().into_arr().map(|a| a.into_inner()), owned.clone().into_obj().map(|o| o.into_inner())),
+			back_to_class_name: match (owned.clone().into_arr(), owned.into_obj()) {
+				(Some(a), _) => ClassName::from(a).into_inner(),
+				(None, Some(o)) => ClassName::from(o).into_inner(),
+				(None, None) => JavaString::new(),
+			},
+		}
+	});
+	let obs = match obs {
+		Ok(o) => o,
 		Err(p) => {
-			report(ctx, &format!("split:panic@{}", site_file(&p)), || format!("split_inner_class_parent_and_name({x:?}) panicked at {}: {}", p.site, p.msg), replay);
+			report(ctx, &format!("class:panic@{}", site_file(&p)), || format!("building the descriptor of class {} panicked at {}: {}", q(&name), p.site, p.msg), replay);
 			return;
 		},
 	};
+	if obs.from_class != want || obs.from_specific != want || obs.as_return != want {
+		report(ctx, "class:descriptor-of-class-name-differs", || format!("class {}: from_class = {}, from_arr_class/from_obj_class = {}, as return descriptor = {}; the descriptor is {}", q(&name), q(&obs.from_class), q(&obs.from_specific), q(&obs.as_return), q(&want)), replay);
+		return;
+	}
+	if obs.dimension.map(u32::from) != dims {
+		report(ctx, "class:array-class-name-classified-or-counted-wrongly", || format!("class {}: taken as array of dimension {:?}, it has {dims:?}", q(&name), obs.dimension), replay);
+		return;
+	}
+	let want_split = if dims.is_some() { (Some(name.clone()), None) } else { (None, Some(name.clone())) };
+	if obs.owned_split != want_split || obs.back_to_class_name != name {
+		report(ctx, "class:into_arr-into_obj-differ", || format!("class {}: (into_arr, into_obj) = {:?}, and back as ClassName {}", q(&name), obs.owned_split, q(&obs.back_to_class_name)), replay);
+		return;
+	}
+	t.bump(if dims.is_some() { "class:array-class-name-to-descriptor" } else { "class:object-class-name-to-descriptor" });
+}
+
+fn obj(s: &JavaStr) -> Option<&ObjClassNameSlice> {
+	<&ObjClassNameSlice>::try_from(s).ok()
+}
+
+type Halves = Option<(JavaString, JavaString)>;
+
+/// `join(split(x)) == x` for a valid object class name `x`, and the split is the documented one.
+fn check_split(ctx: &Ctx, t: &mut Tally, x: &JavaStr) {
+	let replay = || format!("kind=split\nstring={}", esc(x));
+	let Some(xs) = obj(x) else { return }; // refusal of a valid name is reported by check_name
+	t.evals += 3;
+	let own = |o: Option<(&ObjClassNameSlice, &ObjClassNameSlice)>| -> Option<(ObjClassName, ObjClassName)> { o.map(|(p, i)| (p.to_owned(), i.to_owned())) };
+	let seen = vcore::guard(|| (own(xs.split_inner_class_parent_and_name()), xs.get_inner_class_parent().map(|p| p.to_owned()), xs.get_inner_class_name().map(|i| i.to_owned())));
+	let (parts, getter_parent, getter_inner) = match seen {
+		Ok(p) => p,
+		Err(p) => {
+			report(ctx, &format!("split:panic@{}", site_file(&p)), || format!("split_inner_class_parent_and_name({}) panicked at {}: {}", q(x), p.site, p.msg), replay);
+			return;
+		},
+	};
+	let halves: Halves = parts.as_ref().map(|(p, i)| (p.as_inner().to_owned(), i.as_inner().to_owned()));
+	let documented: Halves = ref_split(x.as_bytes()).map(|(p, i)| (text(p), text(i)));
+	if halves != documented {
+		report(ctx, "split:differs-from-documentation", || format!("split({}) = {halves:?}; the part before and after the last `$` of the last `/`-separated section is {documented:?}", q(x)), replay);
+	}
+	if getter_parent.as_ref().map(|p| p.as_inner()) != halves.as_ref().map(|h| h.0.as_java_str()) || getter_inner.as_ref().map(|i| i.as_inner()) != halves.as_ref().map(|h| h.1.as_java_str()) {
+		report(ctx, "split:getters-disagree-with-split", || format!("{}: get_inner_class_parent = {getter_parent:?}, get_inner_class_name = {getter_inner:?}, split = {halves:?}", q(x)), replay);
+	}
 	let Some((parent, inner)) = parts else {
 		t.bump("split:none");
 		return;
 	};
 	t.bump("split:some");
-	let (ps, is) = (lossy(parent.as_inner()), lossy(inner.as_inner()));
-	if !ref_obj_class_name(&ps) || !ref_obj_class_name(&is) {
-		report(ctx, "split:returns-invalid-object-class-name", || format!("split({x:?}) = ({ps:?}, {is:?}): a part typed ObjClassName is not a valid object class name"), replay);
+	let (ps, is) = (parent.as_inner().to_owned(), inner.as_inner().to_owned());
+	if !ref_obj_class_name(ps.as_bytes()) || !ref_obj_class_name(is.as_bytes()) {
+		report(ctx, "split:returns-invalid-object-class-name", || format!("split({}) = ({}, {}): a part typed ObjClassName is not a valid object class name", q(x), q(&ps), q(&is)), replay);
 	}
 	t.evals += 1;
-	match vcore::guard(|| lossy(ObjClassName::from_inner_class(parent.clone(), &inner).as_inner())) {
-		Ok(j) if j == x => t.bump("split:join-of-split-is-identity"),
-		Ok(j) => report(ctx, "split:join-of-split-differs", || format!("split({x:?}) = ({ps:?}, {is:?}) and from_inner_class of the parts = {j:?}"), replay),
-		Err(p) => report(ctx, &format!("join:panic@{}", site_file(&p)), || format!("from_inner_class({ps:?}, {is:?}) panicked at {}: {}", p.site, p.msg), replay),
+	match vcore::guard(|| ObjClassName::from_inner_class(parent.clone(), &inner).into_inner()) {
+		Ok(j) if j == *x => {
+			t.bump("split:join-of-split-is-identity");
+			if x.as_str().is_err() {
+				t.bump("split:join-of-split-is-identity:not-utf8");
+			}
+		},
+		Ok(j) => report(ctx, "split:join-of-split-differs", || format!("split({}) = ({}, {}) and from_inner_class of the parts = {}", q(x), q(&ps), q(&is), q(&j)), replay),
+		Err(p) => report(ctx, &format!("join:panic@{}", site_file(&p)), || format!("from_inner_class({}, {}) panicked at {}: {}", q(&ps), q(&is), p.site, p.msg), replay),
 	}
 }
 
 /// `split(join(p, i)) == (p, i)` for a valid outer `p` and a `$`-free, `/`-free inner `i`.
-fn check_join(ctx: &Ctx, t: &mut Tally, p: &str, i: &str) {
-	let replay = || format!("kind=join\nparent={p}\ninner={i}");
+fn check_join(ctx: &Ctx, t: &mut Tally, p: &JavaStr, i: &JavaStr) {
+	let replay = || format!("kind=join\nparent={}\ninner={}", esc(p), esc(i));
+	if i.contains('$') || i.contains('/') {
+		return;
+	}
 	let (Some(ps), Some(is)) = (obj(p), obj(i)) else { return };
 	t.evals += 1;
 	let joined = match vcore::guard(|| ObjClassName::from_inner_class(ps.to_owned(), is)) {
 		Ok(j) => j,
 		Err(pn) => {
-			report(ctx, &format!("join:panic@{}", site_file(&pn)), || format!("from_inner_class({p:?}, {i:?}) panicked at {}: {}", pn.site, pn.msg), replay);
+			report(ctx, &format!("join:panic@{}", site_file(&pn)), || format!("from_inner_class({}, {}) panicked at {}: {}", q(p), q(i), pn.site, pn.msg), replay);
 			return;
 		},
 	};
-	let js = lossy(joined.as_inner());
-	if !ref_obj_class_name(&js) {
-		report(ctx, "join:returns-invalid-object-class-name", || format!("from_inner_class({p:?}, {i:?}) = {js:?} is not a valid object class name"), replay);
+	let js = joined.as_inner().to_owned();
+	let mut want = p.to_owned();
+	want.push('$');
+	want.push_java_str(i);
+	if js != want {
+		report(ctx, "join:not-parent-dollar-inner", || format!("from_inner_class({}, {}) = {}", q(p), q(i), q(&js)), replay);
+	}
+	if !ref_obj_class_name(js.as_bytes()) {
+		report(ctx, "join:returns-invalid-object-class-name", || format!("from_inner_class({}, {}) = {} is not a valid object class name", q(p), q(i), q(&js)), replay);
 	}
 	t.evals += 1;
-	match vcore::guard(|| joined.split_inner_class_parent_and_name().map(|(a, b)| (lossy(a.as_inner()), lossy(b.as_inner())))) {
-		Ok(Some((a, b))) if a == p && b == i => t.bump("join:split-of-join-is-identity"),
-		Ok(other) => report(ctx, "join:split-of-join-differs", || format!("from_inner_class({p:?}, {i:?}) = {js:?} and splitting that gives {other:?}"), replay),
-		Err(pn) => report(ctx, &format!("split:panic@{}", site_file(&pn)), || format!("split_inner_class_parent_and_name({js:?}) panicked at {}: {}", pn.site, pn.msg), replay),
+	match vcore::guard(|| joined.split_inner_class_parent_and_name().map(|(a, b)| (a.as_inner().to_owned(), b.as_inner().to_owned()))) {
+		Ok(Some((a, b))) if a == *p && b == *i => {
+			t.bump("join:split-of-join-is-identity");
+			if js.as_str().is_err() {
+				t.bump("join:split-of-join-is-identity:not-utf8");
+			}
+		},
+		Ok(other) => report(ctx, "join:split-of-join-differs", || format!("from_inner_class({}, {}) = {} and splitting that gives {other:?}", q(p), q(i), q(&js)), replay),
+		Err(pn) => report(ctx, &format!("split:panic@{}", site_file(&pn)), || format!("split_inner_class_parent_and_name({}) panicked at {}: {}", q(&js), pn.site, pn.msg), replay),
 	}
 }
 
 // ---------------------------------------------------------------------------------------------
 // enumeration
 
-const DESC_ALPHABET: &[u8] = b"BDLa/;[()V.$";
-const NAME_ALPHABET: &[u8] = b"a.;[/<>$";
+const DESC_ALPHABET: &str = "BDLa/;[()V.$";
+const NAME_ALPHABET: &str = "a.;[/<>$";
 const CHUNK: u64 = 8192;
 
-fn nth_string(alphabet: &[u8], len: usize, mut idx: u64, out: &mut Vec<u8>) {
+fn nth_string(alphabet: &[u32], len: usize, mut idx: u64, scratch: &mut Vec<u32>, out: &mut JavaString) {
 	let k = alphabet.len() as u64;
-	out.clear();
-	out.resize(len, 0);
+	scratch.clear();
+	scratch.resize(len, 0);
 	for i in (0..len).rev() {
-		out[i] = alphabet[(idx % k) as usize];
+		scratch[i] = alphabet[(idx % k) as usize];
 		idx /= k;
+	}
+	out.clear();
+	for cp in scratch.iter() {
+		spaces::push_cp(out, *cp);
 	}
 }
 
-/// Every string of length `0..=max_len` over `alphabet`, in parallel chunks; sums are order-independent.
-fn sweep(label: &'static str, alphabet: &'static [u8], max_len: usize, f: impl Fn(&mut Tally, &str) + Sync) -> Tally {
+fn show_alphabet(alphabet: &[u32]) -> String {
+	esc(&jstr(alphabet))
+}
+
+/// Every string of length `0..=max_len` over `alphabet` (code points), in parallel chunks; sums are order-independent.
+fn sweep(label: &'static str, alphabet: &[u32], max_len: usize, f: impl Fn(&mut Tally, &JavaStr) + Sync) -> Tally {
 	let mut jobs: Vec<(usize, u64, u64)> = Vec::new();
 	for len in 0..=max_len {
 		let total = (alphabet.len() as u64).pow(len as u32);
@@ -740,39 +969,40 @@ fn sweep(label: &'static str, alphabet: &'static [u8], max_len: usize, f: impl F
 		}
 	}
 	jobs.into_par_iter().fold(Tally::new, |mut t, (len, a, b)| {
-		vcore::watched(|| format!("{label} sweep: strings of length {len} over {:?}, indices {a}..{b}", String::from_utf8_lossy(alphabet)), || {
-			let mut buf = Vec::new();
+		vcore::watched(|| format!("{label} sweep: strings of length {len} over {}, indices {a}..{b}", show_alphabet(alphabet)), || {
+			let (mut scratch, mut buf) = (Vec::new(), JavaString::new());
 			for idx in a..b {
-				nth_string(alphabet, len, idx, &mut buf);
-				let s = std::str::from_utf8(&buf).unwrap_or_else(|_| vcore::machinery_fail("alphabet is ASCII"));
+				nth_string(alphabet, len, idx, &mut scratch, &mut buf);
 				t.strings += 1;
-				f(&mut t, s);
+				f(&mut t, &buf);
 			}
 		});
 		t
 	}).reduce(Tally::new, Tally::merge)
 }
 
-fn all_strings(alphabet: &[u8], max_len: usize) -> Vec<String> {
+fn all_strings(alphabet: &[u32], max_len: usize) -> Vec<JavaString> {
 	let mut out = Vec::new();
-	let mut buf = Vec::new();
+	let mut scratch = Vec::new();
 	for len in 0..=max_len {
 		for idx in 0..(alphabet.len() as u64).pow(len as u32) {
-			nth_string(alphabet, len, idx, &mut buf);
-			out.push(String::from_utf8_lossy(&buf).into_owned());
+			let mut s = JavaString::new();
+			nth_string(alphabet, len, idx, &mut scratch, &mut s);
+			out.push(s);
 		}
 	}
 	out
 }
 
 /// `<init>`, `<clinit>` and every string one edit (deletion, substitution, insertion) away.
-fn special_name_neighbours() -> Vec<String> {
-	let mut edit_alphabet: Vec<char> = NAME_ALPHABET.iter().map(|b| *b as char).collect();
-	edit_alphabet.extend(['i', 'n', 't', 'c', 'l', 'I', 'x']);
+fn special_name_neighbours() -> Vec<JavaString> {
+	let mut edit_alphabet: Vec<char> = NAME_ALPHABET.chars().collect();
+	edit_alphabet.extend(['i', 'n', 't', 'c', 'l', 'I', 'x', ' ', '\u{E9}', '\u{0}']);
 	let mut out: BTreeSet<String> = BTreeSet::new();
 	for word in ["<init>", "<clinit>"] {
 		let w: Vec<char> = word.chars().collect();
 		out.insert(word.to_owned());
+		out.insert(word.to_uppercase());
 		for i in 0..w.len() {
 			let mut d = w.clone();
 			d.remove(i);
@@ -791,12 +1021,12 @@ fn special_name_neighbours() -> Vec<String> {
 			}
 		}
 	}
-	out.into_iter().collect()
+	out.into_iter().map(JavaString::from).collect()
 }
 
-/// Explicit probes outside the swept alphabet: the 255-dimension boundary in every position, the
-/// primitives the alphabet leaves out, a few realistic descriptors.
-fn explicit_probes() -> Vec<String> {
+/// Explicit probes outside the swept alphabets: the primitives the alphabets leave out in every position,
+/// realistic descriptors, blanks around descriptors.
+fn explicit_probes() -> Vec<JavaString> {
 	let mut out: BTreeSet<String> = BTreeSet::new();
 	for n in [254usize, 255, 256, 257] {
 		let dims = "[".repeat(n);
@@ -811,32 +1041,41 @@ fn explicit_probes() -> Vec<String> {
 	}
 	for p in ["B", "C", "D", "F", "I", "J", "S", "Z", "V"] {
 		out.insert(p.to_owned());
+		out.insert(p.to_lowercase());
 		out.insert(format!("[{p}"));
 		out.insert(format!("[[[{p}"));
 		out.insert(format!("({p}){p}"));
 		out.insert(format!("({p}[{p}){p}"));
+		out.insert(format!("(){p}"));
+		out.insert(format!("()[{p}"));
+		out.insert(format!("([[{p}{p})[[{p}"));
 		out.insert(format!("L{p};"));
+		out.insert(format!("[L{p};"));
+		out.insert(format!("[{p};"));
 	}
 	for s in [
 		"(IDLjava/lang/Thread;)Ljava/lang/Object;", "(Ljava/lang/Thread;Ljava/lang/Object;)V", "Ljava/lang/Object;", "[[Ljava/lang/Integer;",
 		"Ljava.lang.Object;", "Ljava/lang//Object;", "L/java/lang/Object;", "Ljava/lang/Object/;", "L[Ljava/lang/Object;;", "Ljava/lang/Object",
 		"(Ljava/lang/Object;", "Ljava/lang/Object;)V", "()", "()VV", "(V)V", "([V)V", "()[V", "LÉ/☃;", "(LÉ;)[LÉ;",
+		"LLong;", "[LList;", "(LList;I[LLexer;)LLong;", "LL;", "LLL;", "La$;", "L$;", "La//b;", "Ljava/util/Map<TK;TV;>;", "Ljava/util/Map$Entry;",
+		" I", "I ", "\tI", "I\n", " ()V", "()V ", "( )V", "() V", " Ljava/lang/Object;", "Ljava/lang/Object; ", "L java/lang/Object;", "Ljava/lang/Object ;",
+		"(II", "II)V", "((I)V", "(I))V", "(I)(I)V", "()()", ")(", "(;)V", "(L;)V", "([)V", "([", "[(", "[)", "[;",
 	] {
 		out.insert(s.to_owned());
 	}
-	out.into_iter().collect()
+	out.into_iter().map(JavaString::from).collect()
 }
 
-fn element_types(class_names: &[&str]) -> Vec<R> {
+fn element_types(class_names: &[JavaString]) -> Vec<R> {
 	let mut e: Vec<R> = "BCDFIJSZ".chars().map(R::Prim).collect();
-	e.extend(class_names.iter().map(|n| R::Obj(n.to_string())));
+	e.extend(class_names.iter().map(|n| R::Obj(n.clone())));
 	e
 }
 
 const STRUCT_DIMS: [u32; 4] = [1, 2, 254, 255];
 
 /// every type of depth ≤ 2: an element type, or an array of 1, 2, 254 or 255 dimensions of one
-fn type_universe(class_names: &[&str]) -> Vec<R> {
+fn type_universe(class_names: &[JavaString]) -> Vec<R> {
 	let elems = element_types(class_names);
 	let mut out = elems.clone();
 	for d in STRUCT_DIMS {
@@ -847,14 +1086,19 @@ fn type_universe(class_names: &[&str]) -> Vec<R> {
 	out
 }
 
-/// every descriptor structure over `types`: fields, returns, methods with up to two parameters
-fn struct_universe(types: &[R]) -> Vec<(usize, Shape)> {
+/// every descriptor structure: fields, returns and methods with up to one parameter over `types`, methods with
+/// two parameters over `pair_types`, methods with three parameters over `triple_types`
+fn struct_universe(types: &[R], pair_types: &[R], triple_types: &[R]) -> Vec<(usize, Shape)> {
 	let mut out = Vec::new();
 	for t in types {
 		out.push((FIELD, Shape { params: None, ret: Some(t.clone()) }));
 	}
-	let mut rets: Vec<Option<R>> = vec![None];
-	rets.extend(types.iter().cloned().map(Some));
+	let rets_of = |types: &[R]| -> Vec<Option<R>> {
+		let mut rets: Vec<Option<R>> = vec![None];
+		rets.extend(types.iter().cloned().map(Some));
+		rets
+	};
+	let rets = rets_of(types);
 	for r in &rets {
 		out.push((RETURN, Shape { params: None, ret: r.clone() }));
 	}
@@ -862,14 +1106,27 @@ fn struct_universe(types: &[R]) -> Vec<(usize, Shape)> {
 	for a in types {
 		param_lists.push(vec![a.clone()]);
 	}
-	for a in types {
-		for b in types {
-			param_lists.push(vec![a.clone(), b.clone()]);
-		}
-	}
 	for p in &param_lists {
 		for r in &rets {
 			out.push((METHOD, Shape { params: Some(p.clone()), ret: r.clone() }));
+		}
+	}
+	let pair_rets = rets_of(pair_types);
+	for a in pair_types {
+		for b in pair_types {
+			for r in &pair_rets {
+				out.push((METHOD, Shape { params: Some(vec![a.clone(), b.clone()]), ret: r.clone() }));
+			}
+		}
+	}
+	let triple_rets = rets_of(triple_types);
+	for a in triple_types {
+		for b in triple_types {
+			for c in triple_types {
+				for r in &triple_rets {
+					out.push((METHOD, Shape { params: Some(vec![a.clone(), b.clone(), c.clone()]), ret: r.clone() }));
+				}
+			}
 		}
 	}
 	out
@@ -877,6 +1134,10 @@ fn struct_universe(types: &[R]) -> Vec<(usize, Shape)> {
 
 // ---------------------------------------------------------------------------------------------
 // independent counts of the languages (cross-check of the reference recogniser, exit 2 on mismatch)
+
+fn is_ascii_of(cp: u32, set: &[u8]) -> bool {
+	u8::try_from(cp).is_ok_and(|b| set.contains(&b))
+}
 
 /// number of §4.2.1 class names of each length `0..=n` when `ids` characters may appear in an identifier
 fn count_class_names(ids: u64, n: usize) -> Vec<u64> {
@@ -889,10 +1150,16 @@ fn count_class_names(ids: u64, n: usize) -> Vec<u64> {
 	a
 }
 
-/// expected number of strings of length ≤ `n` over the descriptor alphabet in each of the three languages
-fn count_descriptors(n: usize) -> [u64; 3] {
-	let ids = DESC_ALPHABET.iter().filter(|b| !matches!(**b, b'.' | b';' | b'[' | b'/')).count() as u64;
-	let prims = DESC_ALPHABET.iter().filter(|b| b"BCDFIJSZ".contains(*b)).count() as u64;
+/// expected number of strings of length ≤ `n` over a descriptor alphabet in each of the three languages; the
+/// alphabet must hold all the structural characters (the argument counts what can be spelt with them)
+fn count_descriptors(alphabet: &[u32], n: usize) -> [u64; 3] {
+	for needed in b"L;[/()V" {
+		if !alphabet.contains(&u32::from(*needed)) {
+			vcore::machinery_fail("counting argument: the descriptor alphabet lacks a structural character");
+		}
+	}
+	let ids = alphabet.iter().filter(|c| !is_ascii_of(**c, b".;[/")).count() as u64;
+	let prims = alphabet.iter().filter(|c| is_ascii_of(**c, b"BCDFIJSZ")).count() as u64;
 	let cn = count_class_names(ids, n);
 	let base = |m: usize| -> u64 { if m == 1 { prims } else if m >= 3 { cn[m - 2] } else { 0 } };
 	// f[m]: field types of length m = d brackets and a base of length m - d
@@ -908,41 +1175,79 @@ fn count_descriptors(n: usize) -> [u64; 3] {
 	[f.iter().sum(), m_.iter().sum(), rt.iter().sum()]
 }
 
-/// expected number of strings of length ≤ `n` over the name alphabet that each name type documents as valid
-/// (no array class name can be spelt in that alphabet: it has no base type letter and no `L`)
-fn count_names(n: usize) -> [u64; 7] {
-	let ids = NAME_ALPHABET.iter().filter(|b| !matches!(**b, b'.' | b';' | b'[' | b'/')).count() as u64;
-	let method_ids = NAME_ALPHABET.iter().filter(|b| !matches!(**b, b'.' | b';' | b'[' | b'/' | b'<' | b'>')).count() as u64;
+/// expected number of strings of length ≤ `n` over a name alphabet that each name type documents as valid
+/// (the alphabet must have no base type letter and no `L`: then no array class name can be spelt in it)
+fn count_names(alphabet: &[u32], n: usize) -> [u64; 7] {
+	if alphabet.iter().any(|c| is_ascii_of(*c, b"BCDFIJSZL")) {
+		vcore::machinery_fail("counting argument: the name alphabet can spell an array class name");
+	}
+	let ids = alphabet.iter().filter(|c| !is_ascii_of(**c, b".;[/")).count() as u64;
+	let method_ids = alphabet.iter().filter(|c| !is_ascii_of(**c, b".;[/<>")).count() as u64;
 	let obj: u64 = count_class_names(ids, n).iter().sum();
 	let unq: u64 = (1..=n).map(|m| ids.pow(m as u32)).sum();
 	let meth: u64 = (1..=n).map(|m| method_ids.pow(m as u32)).sum();
 	[obj, 0, obj, unq, meth, unq, unq]
 }
 
+fn confirm_counts(label: &str, t: &Tally, alphabet: &[u32], max_len: usize, descriptors: bool) {
+	if descriptors {
+		let want = count_descriptors(alphabet, max_len);
+		for k in 0..3 {
+			if t.ref_accepts_desc(k) != want[k] {
+				vcore::machinery_fail(&format!("{label}: reference recogniser accepts {} {} descriptors of length ≤ {max_len}, the counting argument gives {}", t.ref_accepts_desc(k), PARSERS[k], want[k]));
+			}
+		}
+	} else {
+		let want = count_names(alphabet, max_len);
+		for k in 0..7 {
+			if t.ref_accepts_name(k) != want[k] {
+				vcore::machinery_fail(&format!("{label}: reference predicate for {} accepts {} names of length ≤ {max_len}, the counting argument gives {}", NAME_TYPES[k], t.ref_accepts_name(k), want[k]));
+			}
+		}
+	}
+	if t.strings != vcore::enumerate::strings_count(alphabet.len(), max_len) {
+		vcore::machinery_fail(&format!("{label}: the sweep did not visit every string"));
+	}
+}
+
 // ---------------------------------------------------------------------------------------------
 
-fn sample_desc(s: &str) -> Value {
+fn sample_desc(s: &JavaStr) -> Value {
 	let mut per = serde_json::Map::new();
 	for kind in 0..3 {
-		let real = vcore::guard(|| real_parse(kind, s).map(|p| (format!("{:?}", p.shape()), vcore::guard(|| p.write()).map_err(|p| format!("panic at {}", p.site)))));
+		let real = vcore::guard(|| real_parse(kind, s).map(|p| (format!("{:?}", p.shape()), vcore::guard(|| esc(&p.write())).map_err(|p| format!("panic at {}", p.site)))));
 		per.insert(PARSERS[kind].to_owned(), json!({
 			"reference": match ref_parse(kind, s.as_bytes()) { Ok(sh) => format!("accept {sh:?}"), Err(w) => format!("reject ({})", w.name()) },
 			"real": match real { Ok(Some((sh, w))) => format!("accept {sh} write={w:?}"), Ok(None) => "reject".to_owned(), Err(p) => format!("panic at {}", p.site) },
 		}));
 	}
-	json!({"kind": "descriptor-string", "string": s, "parsers": per})
+	json!({"kind": "descriptor-string", "string": q(s), "parsers": per})
 }
 
-fn sample_name(s: &str) -> Value {
+fn sample_name(s: &JavaStr) -> Value {
 	let mut per = serde_json::Map::new();
 	for k in 0..7 {
 		per.insert(NAME_TYPES[k].to_owned(), json!({
-			"documented": ref_name(k, s).is_ok(),
+			"documented": ref_name(k, s.as_bytes()).is_ok(),
 			"real_is_valid": vcore::guard(|| real_name(k, s).is_valid).ok(),
 		}));
 	}
-	json!({"kind": "name-string", "string": s, "types": per})
+	json!({"kind": "name-string", "string": q(s), "types": per})
 }
+
+fn sample_split(s: &JavaStr) -> Value {
+	let real = obj(s).map(|o| vcore::guard(|| o.split_inner_class_parent_and_name().map(|(p, i)| (esc(p.as_inner()), esc(i.as_inner())))).map_err(|p| p.site));
+	json!({"kind": "split", "name": q(s), "split": format!("{real:?}"), "documented": format!("{:?}", ref_split(s.as_bytes()).map(|(p, i)| (esc(&text(p)), esc(&text(i)))))})
+}
+
+fn fold_tally<I: IntoParallelIterator>(items: I, f: impl Fn(&mut Tally, I::Item) + Sync + Send) -> Tally {
+	items.into_par_iter().fold(Tally::new, |mut t, item| {
+		f(&mut t, item);
+		t
+	}).reduce(Tally::new, Tally::merge)
+}
+
+const HUGE_DIMS: [usize; 5] = [4096, 65_535, 65_536, 65_537, 1 << 20];
 
 fn main() {
 	// Every refusal of the code under test builds an anyhow::Error; with RUST_BACKTRACE set in the caller's
@@ -953,52 +1258,46 @@ fn main() {
 	if let Some(path) = ctx.replay.clone() {
 		replay(ctx, &path);
 	}
+	let thorough = !ctx.quick();
 	let desc_len = ctx.tier.pick(6, 7);
 	let name_len = ctx.tier.pick(6, 8);
 	let split_len = ctx.tier.pick(6, 8);
 	let (parent_len, inner_len) = ctx.tier.pick((4, 3), (5, 4));
-	let class_names: Vec<&str> = ctx.tier.pick(vec!["a", "a/b", "p/A$B"], vec!["a", "a/b", "p/A$B", "java/lang/Object", "L", "(V)"]);
+	let wide_desc_len = ctx.tier.pick(5, 6);
+	let wide_name_len = ctx.tier.pick(5, 6);
+	let wide_split_len = ctx.tier.pick(4, 5);
+	let (wide_parent_len, wide_inner_len) = ctx.tier.pick((3, 2), (4, 2));
+	let max_dims = ctx.tier.pick(1030usize, 2100);
+	let max_params = ctx.tier.pick(300usize, 1200);
+	let max_long = ctx.tier.pick(200usize, 400);
+	let desc_alphabet = cps(DESC_ALPHABET);
+	let name_alphabet = cps(NAME_ALPHABET);
+	let wide_desc_alphabet = spaces::wide_desc_alphabet();
+	let wide_name_alphabet = spaces::wide_name_alphabet();
 
 	// 1. descriptor alphabet: three parsers and all seven name types on every string
-	let d = sweep("descriptor", DESC_ALPHABET, desc_len, |t, s| {
+	let d = sweep("descriptor", &desc_alphabet, desc_len, |t, s| {
 		check_desc(ctx, t, s);
 		check_name(ctx, t, s);
 	});
-	let want = count_descriptors(desc_len);
-	for k in 0..3 {
-		if d.ref_accepts_desc(k) != want[k] {
-			vcore::machinery_fail(&format!("reference recogniser accepts {} {} descriptors of length ≤ {desc_len}, the counting argument gives {}", d.ref_accepts_desc(k), PARSERS[k], want[k]));
-		}
-	}
-	if d.strings != vcore::enumerate::strings_count(DESC_ALPHABET.len(), desc_len) {
-		vcore::machinery_fail("descriptor sweep did not visit every string");
-	}
+	confirm_counts("descriptor sweep", &d, &desc_alphabet, desc_len, true);
 
 	// 2. name alphabet: all seven name types on every string
-	let n = sweep("name", NAME_ALPHABET, name_len, |t, s| check_name(ctx, t, s));
-	let want = count_names(name_len);
-	for k in 0..7 {
-		if n.ref_accepts_name(k) != want[k] {
-			vcore::machinery_fail(&format!("reference predicate for {} accepts {} names of length ≤ {name_len}, the counting argument gives {}", NAME_TYPES[k], n.ref_accepts_name(k), want[k]));
-		}
-	}
-	if n.strings != vcore::enumerate::strings_count(NAME_ALPHABET.len(), name_len) {
-		vcore::machinery_fail("name sweep did not visit every string");
-	}
+	let n = sweep("name", &name_alphabet, name_len, |t, s| check_name(ctx, t, s));
+	confirm_counts("name sweep", &n, &name_alphabet, name_len, false);
 
-	// 3. <init>/<clinit> neighbourhood and explicit probes (255/256/257 dimensions, remaining primitives)
+	// 3. <init>/<clinit> neighbourhood and explicit probes
 	let neighbours = special_name_neighbours();
 	let probes = explicit_probes();
-	let x = neighbours.par_iter().map(|s| (s, false)).chain(probes.par_iter().map(|s| (s, true))).fold(Tally::new, |mut t, (s, desc)| {
-		vcore::watched(|| format!("explicit string {s:?}"), || {
+	let x = fold_tally(neighbours.par_iter().map(|s| (s, false)).chain(probes.par_iter().map(|s| (s, true))), |t, (s, desc)| {
+		vcore::watched(|| format!("explicit string {}", q(s)), || {
 			t.strings += 1;
 			if desc {
-				check_desc(ctx, &mut t, s);
+				check_desc(ctx, t, s);
 			}
-			check_name(ctx, &mut t, s);
+			check_name(ctx, t, s);
 		});
-		t
-	}).reduce(Tally::new, Tally::merge);
+	});
 	// the dimension boundary, judged one by one so that the floor names what was seen
 	let mut boundary = BTreeMap::new();
 	for (dims, must_accept) in [(254usize, true), (255, true), (256, false), (257, false)] {
@@ -1006,53 +1305,214 @@ fn main() {
 			if ref_parse(kind, s.as_bytes()).is_ok() != must_accept {
 				vcore::machinery_fail("reference recogniser is wrong about the dimension limit");
 			}
-			let real = vcore::guard(|| real_parse(kind, &s).is_some()).unwrap_or(!must_accept);
+			let real = vcore::guard(|| real_parse(kind, JavaStr::from_str(&s)).is_some()).unwrap_or(!must_accept);
 			*boundary.entry(if real == must_accept { "agree" } else { "disagree" }).or_insert(0u64) += 1;
 		}
 	}
 
-	// 4. structures: write → parse
+	// 4. descriptor alphabet with wide characters
+	let wd = sweep("wide descriptor", &wide_desc_alphabet, wide_desc_len, |t, s| {
+		check_desc(ctx, t, s);
+		check_name(ctx, t, s);
+	});
+	confirm_counts("wide descriptor sweep", &wd, &wide_desc_alphabet, wide_desc_len, true);
+
+	// 5. name alphabet with wide characters
+	let wn = sweep("wide name", &wide_name_alphabet, wide_name_len, |t, s| check_name(ctx, t, s));
+	confirm_counts("wide name sweep", &wn, &wide_name_alphabet, wide_name_len, false);
+
+	// 6. every code point in every context
+	let (desc_templates, name_templates, split_templates) = (spaces::desc_templates(thorough), spaces::name_templates(thorough), spaces::split_templates(thorough));
+	let block = 512u32;
+	let blocks: Vec<u32> = (0..=spaces::LAST_CODE_POINT / block).collect();
+	let cp = fold_tally(blocks, |t, b| {
+		let (from, to) = (b * block, (b * block + block - 1).min(spaces::LAST_CODE_POINT));
+		vcore::watched(|| format!("code points {from:#x}..={to:#x} in the contexts {:?} {:?} {:?}", desc_templates.iter().map(|x| x.label).collect::<Vec<_>>(), name_templates.iter().map(|x| x.label).collect::<Vec<_>>(), split_templates.iter().map(|x| x.label).collect::<Vec<_>>()), || {
+			let mut buf = JavaString::new();
+			for c in from..=to {
+				for tpl in &desc_templates {
+					tpl.fill(c, &mut buf);
+					check_desc(ctx, t, &buf);
+				}
+				for tpl in &name_templates {
+					tpl.fill(c, &mut buf);
+					check_name(ctx, t, &buf);
+				}
+				for tpl in &split_templates {
+					tpl.fill(c, &mut buf);
+					check_split(ctx, t, &buf);
+				}
+				t.strings += (desc_templates.len() + name_templates.len() + split_templates.len()) as u64;
+				t.bump("code-points:visited");
+				if (0xD800..=0xDFFF).contains(&c) {
+					t.bump("code-points:surrogates-visited");
+				}
+			}
+		});
+	});
+
+	// 7. ladders
+	let dim_cases: Vec<usize> = (0..=max_dims).collect();
+	let ld = fold_tally(dim_cases, |t, dims| {
+		vcore::watched(|| format!("dimension ladder: {dims} brackets before {:?} in {:?}", spaces::DIM_BASES, spaces::DIM_FORMS), || {
+			for base in 0..spaces::DIM_BASES.len() {
+				for form in 0..spaces::DIM_FORMS.len() {
+					let s = spaces::dims_case(dims, base, form);
+					t.strings += 1;
+					check_desc(ctx, t, &s);
+					check_name(ctx, t, &s);
+					t.bump("ladder:dimensions:cases");
+				}
+			}
+		});
+	});
+	let huge_cases: Vec<(usize, usize, usize)> = HUGE_DIMS.iter().flat_map(|d| [0usize, 1].into_iter().flat_map(move |b| (0..3usize).map(move |f| (*d, b, f)))).collect();
+	let lh = fold_tally(huge_cases.clone(), |t, (dims, base, form)| {
+		vcore::watched(|| format!("{dims} brackets before {:?} in {:?}", spaces::DIM_BASES[base], spaces::DIM_FORMS[form]), || {
+			let s = spaces::dims_case(dims, base, form);
+			t.strings += 1;
+			let refused_before: u64 = (0..3).map(|k| t.desc_rejects(k)).sum();
+			check_desc(ctx, t, &s);
+			check_name(ctx, t, &s);
+			if (0..3).map(|k| t.desc_rejects(k)).sum::<u64>() == refused_before + 3 {
+				t.bump("ladder:huge-dimensions:refused-by-all-three-parsers");
+			}
+		});
+	});
+	let param_cases: Vec<usize> = (0..=max_params).collect();
+	let lp = fold_tally(param_cases, |t, count| {
+		vcore::watched(|| format!("parameter ladder: {count} parameters {:?} returning {:?}", spaces::PARAM_UNITS, spaces::PARAM_RETURNS), || {
+			for unit in 0..spaces::PARAM_UNITS.len() {
+				for ret in 0..spaces::PARAM_RETURNS.len() {
+					let s = spaces::params_case(count, unit, ret);
+					t.strings += 1;
+					let before = t.d_rewritten_same[METHOD];
+					check_desc(ctx, t, &s);
+					if t.d_rewritten_same[METHOD] > before {
+						let slots = count * if spaces::PARAM_UNITS[unit] == "D" { 2 } else { 1 };
+						t.bump(if slots > 255 { "ladder:parameters:over-255-slots-read-and-written-back" } else { "ladder:parameters:up-to-255-slots-read-and-written-back" });
+					}
+				}
+			}
+		});
+	});
+	let mut long_chars: Vec<u32> = spaces::WIDE.to_vec();
+	long_chars.push(u32::from(b'b'));
+	let long_cases: Vec<(usize, u32, usize)> = (0..=max_long).flat_map(|k| long_chars.clone().into_iter().flat_map(move |w| (0..spaces::LONG_PLACEMENTS).map(move |p| (k, w, p)))).collect();
+	let b_name = JavaString::from("b");
+	let ll = fold_tally(long_cases.clone(), |t, (k, w, placement)| {
+		vcore::watched(|| format!("long name: {k} × a with U+{w:04X} at placement {placement}"), || {
+			let name = spaces::long_name(k, w, placement);
+			for form in spaces::LONG_DESC_FORMS {
+				let s = spaces::long_case(form, &name);
+				t.strings += 1;
+				check_desc(ctx, t, &s);
+			}
+			for form in spaces::LONG_NAME_FORMS {
+				let s = spaces::long_case(form, &name);
+				t.strings += 1;
+				check_name(ctx, t, &s);
+			}
+			for form in ["?$b", "b$?", "p/?$b", "?$?", "?/b$b"] {
+				let s = spaces::long_case(form, &name);
+				t.strings += 1;
+				check_split(ctx, t, &s);
+			}
+			check_join(ctx, t, &name, &b_name);
+			check_join(ctx, t, &b_name, &name);
+			check_join(ctx, t, &name, &name);
+			t.bump("ladder:long-names:cases");
+		});
+	});
+
+	// 8. structures: write → parse, and every type as a class name
+	let class_names = spaces::structure_class_names(thorough);
 	let types = type_universe(&class_names);
-	let structs = struct_universe(&types);
-	let s = structs.par_chunks(256).fold(Tally::new, |mut t, chunk| {
-		vcore::watched(|| format!("structure sweep from {:?}", chunk.first().map(|(k, sh)| (PARSERS[*k], ref_print(sh)))), || {
+	let pair_types: Vec<R> = if thorough { types.clone() } else { type_universe(&[class_names[1].clone(), class_names[3].clone(), class_names[5].clone(), class_names[7].clone()]) };
+	let triple_types: Vec<R> = vec![
+		R::Prim('I'), R::Prim('D'), R::Obj(class_names[0].clone()), R::Arr(1, Box::new(R::Prim('I'))),
+		R::Arr(2, Box::new(R::Obj(class_names[7].clone()))), R::Arr(255, Box::new(R::Obj(class_names[1].clone()))),
+	];
+	let structs = struct_universe(&types, &[], &triple_types);
+	let s1 = structs.par_chunks(256).fold(Tally::new, |mut t, chunk| {
+		vcore::watched(|| format!("structure sweep from {:?}", chunk.first().map(|(k, sh)| (PARSERS[*k], esc(&ref_print(sh))))), || {
 			for (kind, shape) in chunk {
 				check_struct(ctx, &mut t, *kind, shape);
 			}
 		});
 		t
 	}).reduce(Tally::new, Tally::merge);
+	let pair_rets: Vec<Option<R>> = std::iter::once(None).chain(pair_types.iter().cloned().map(Some)).collect();
+	let firsts: Vec<&R> = pair_types.iter().collect();
+	let s2 = fold_tally(firsts, |t, a| {
+		for b in &pair_types {
+			vcore::watched(|| format!("structure sweep: methods with the parameters {a:?}, {b:?}"), || {
+				for r in &pair_rets {
+					check_struct(ctx, t, METHOD, &Shape { params: Some(vec![a.clone(), b.clone()]), ret: r.clone() });
+					t.bump("struct:two-parameter-methods");
+				}
+			});
+		}
+	});
+	let sc = fold_tally(types.par_iter(), |t, r| {
+		vcore::watched(|| format!("type as class name: {r:?}"), || check_class(ctx, t, r));
+	});
+	let s = s1.merge(s2).merge(sc);
+	let structures = structs.len() as u64 + s.get("struct:two-parameter-methods");
 
-	// 5. inner-class split / join
-	let name_strings = all_strings(NAME_ALPHABET, split_len.max(parent_len));
-	let valid_names: Vec<&String> = name_strings.iter().filter(|s| ref_obj_class_name(s)).collect();
-	let outers: Vec<&String> = valid_names.iter().copied().filter(|s| s.len() <= parent_len).collect();
-	let inners: Vec<&String> = valid_names.iter().copied().filter(|s| s.len() <= inner_len && !s.contains('$') && !s.contains('/')).collect();
-	let sp = valid_names.par_chunks(512).fold(Tally::new, |mut t, chunk| {
-		vcore::watched(|| format!("split sweep from {:?}", chunk.first()), || {
-			for x in chunk.iter().filter(|x| x.len() <= split_len) {
+	// the named constants are what their names say and pass their own predicates
+	let mut consts = Tally::new();
+	for (what, held, documented, valid) in [
+		("MethodName::INIT", MethodName::INIT.as_inner(), "<init>", MethodName::is_valid(MethodName::INIT.as_inner())),
+		("MethodName::CLINIT", MethodName::CLINIT.as_inner(), "<clinit>", MethodName::is_valid(MethodName::CLINIT.as_inner())),
+		("ObjClassName::JAVA_LANG_OBJECT", ObjClassName::JAVA_LANG_OBJECT.as_inner(), "java/lang/Object", ObjClassName::is_valid(ObjClassName::JAVA_LANG_OBJECT.as_inner())),
+	] {
+		consts.evals += 2;
+		if held != documented || !valid {
+			report(ctx, "constant:differs-from-its-name", || format!("{what} holds {} (valid for its own type: {valid}), documented as {documented:?}", q(held)), || format!("kind=name\nstring={}", esc(held)));
+		} else {
+			consts.bump("constants:as-documented");
+		}
+	}
+
+	// 9. inner-class split / join
+	let name_strings = all_strings(&name_alphabet, split_len.max(parent_len));
+	let valid_names: Vec<&JavaString> = name_strings.iter().filter(|s| ref_obj_class_name(s.as_bytes())).collect();
+	let outers: Vec<&JavaString> = valid_names.iter().copied().filter(|s| s.len() <= parent_len).collect();
+	let inners: Vec<&JavaString> = valid_names.iter().copied().filter(|s| s.len() <= inner_len && !s.contains('$') && !s.contains('/')).collect();
+	let wide_strings = all_strings(&wide_name_alphabet, wide_split_len.max(wide_parent_len));
+	let chars_of = |s: &JavaString| s.chars().count();
+	let wide_valid: Vec<&JavaString> = wide_strings.iter().filter(|s| ref_obj_class_name(s.as_bytes())).collect();
+	let wide_outers: Vec<&JavaString> = wide_valid.iter().copied().filter(|s| chars_of(s) <= wide_parent_len).collect();
+	let wide_inners: Vec<&JavaString> = wide_valid.iter().copied().filter(|s| chars_of(s) <= wide_inner_len && !s.contains('$') && !s.contains('/')).collect();
+	let split_names: Vec<&JavaString> = valid_names.iter().copied().filter(|x| x.len() <= split_len).chain(wide_valid.iter().copied().filter(|x| chars_of(x) <= wide_split_len)).collect();
+	let sp = split_names.par_chunks(512).fold(Tally::new, |mut t, chunk| {
+		vcore::watched(|| format!("split sweep from {:?}", chunk.first().map(|x| q(x))), || {
+			for x in chunk {
 				check_split(ctx, &mut t, x);
 			}
 		});
 		t
 	}).reduce(Tally::new, Tally::merge);
-	let jo = outers.par_iter().fold(Tally::new, |mut t, p| {
-		vcore::watched(|| format!("join sweep parent {p:?}"), || {
-			for i in &inners {
-				check_join(ctx, &mut t, p, i);
+	let join_rows: Vec<(&JavaString, &Vec<&JavaString>)> = outers.iter().map(|p| (*p, &inners)).chain(wide_outers.iter().map(|p| (*p, &wide_inners))).collect();
+	let jo = fold_tally(join_rows, |t, (p, inners)| {
+		vcore::watched(|| format!("join sweep parent {}", q(p)), || {
+			for i in inners.iter() {
+				check_join(ctx, t, p, i);
 			}
 		});
-		t
-	}).reduce(Tally::new, Tally::merge);
+	});
 
-	let all = d.clone().merge(n.clone()).merge(x.clone()).merge(s.clone()).merge(sp.clone()).merge(jo.clone());
+	let all = [&d, &n, &x, &wd, &wn, &cp, &ld, &lh, &lp, &ll, &s, &consts, &sp, &jo].into_iter().fold(Tally::new(), |a, b| a.merge(b.clone()));
 
 	// vacuity floors
 	let (acc_floor, rej_floor) = (100, 1000);
 	for k in 0..3 {
 		ctx.floor(&format!("{} descriptors accepted by parser and grammar", PARSERS[k]), acc_floor, all.d_both_accept[k]);
-		ctx.floor(&format!("{} descriptors rejected by parser and grammar", PARSERS[k]), rej_floor, all.d_both_reject[k].iter().sum());
+		ctx.floor(&format!("{} descriptors rejected by parser and grammar", PARSERS[k]), rej_floor, all.desc_rejects(k));
 		ctx.floor(&format!("{} descriptors written back identically", PARSERS[k]), acc_floor, all.d_rewritten_same[k]);
+		ctx.floor(&format!("{} descriptors with a lone surrogate written back identically", PARSERS[k]), 1000, all.d_rewritten_same_not_utf8[k]);
+		ctx.floor(&format!("{} descriptors over the wide alphabet accepted / rejected by parser and grammar", PARSERS[k]), 10, wd.d_both_accept[k].min(wd.desc_rejects(k)));
 	}
 	let reason_seen = |k: usize, w: Why| all.d_both_reject[k][w as usize] + all.d_real_only[k][w as usize];
 	for w in WHYS {
@@ -1067,19 +1527,43 @@ fn main() {
 	for k in 0..7 {
 		ctx.floor(&format!("{} accepted as documented", NAME_TYPES[k]), acc_floor, all.n_both_accept[k]);
 		ctx.floor(&format!("{} rejected as documented", NAME_TYPES[k]), rej_floor, all.n_both_reject[k]);
+		ctx.floor(&format!("{} with a lone surrogate accepted as documented", NAME_TYPES[k]), 100, all.n_both_accept_not_utf8[k]);
+	}
+	for k in [0usize, 2, 3, 4, 5, 6] {
+		ctx.floor(&format!("{} over the wide alphabet accepted / rejected as documented", NAME_TYPES[k]), 1000, wn.n_both_accept[k].min(wn.n_both_reject[k]));
 	}
 	ctx.floor("dimension boundary probes (254/255 accepted, 256/257 refused) judged", 16, boundary.values().sum());
+	ctx.floor("every code point visited", u64::from(spaces::LAST_CODE_POINT) + 1, cp.get("code-points:visited"));
+	ctx.floor("every surrogate visited", 2048, cp.get("code-points:surrogates-visited"));
+	ctx.floor("code points: names split", 100_000, cp.get("split:some"));
+	ctx.floor("dimension ladder cases", ((max_dims + 1) * spaces::DIM_BASES.len() * spaces::DIM_FORMS.len()) as u64, ld.get("ladder:dimensions:cases"));
+	ctx.floor("dimension ladder: descriptors accepted", 1000, ld.d_both_accept.iter().sum());
+	ctx.floor("dimension ladder: over 255 dimensions refused", 1000, (0..3).map(|k| ld.d_both_reject[k][Why::TooManyDims as usize]).sum());
+	ctx.floor("dimension ladder: array class names accepted / refused", 500, ld.n_both_accept[1].min(ld.n_both_reject[1]));
+	ctx.floor("4096 … 2^20 brackets refused by all three parsers", huge_cases.len() as u64, lh.get("ladder:huge-dimensions:refused-by-all-three-parsers"));
+	// (beyond 255 slots reading is optional: counted in the outcomes, no floor)
+	ctx.floor("parameter ladder: descriptors of up to 255 parameter slots read and written back", ((256 * (spaces::PARAM_UNITS.len() - 1) + 128) * spaces::PARAM_RETURNS.len()) as u64, lp.get("ladder:parameters:up-to-255-slots-read-and-written-back"));
+	ctx.floor("long names judged", long_cases.len() as u64, ll.get("ladder:long-names:cases"));
+	ctx.floor("long names: descriptors accepted / refused", 1000, ll.d_both_accept.iter().sum::<u64>().min((0..3).map(|k| ll.desc_rejects(k)).sum()));
+	ctx.floor("long names: split and joined back", 1000, ll.get("split:join-of-split-is-identity").min(ll.get("join:split-of-join-is-identity")));
 	ctx.floor("structures written and parsed back", 1000, s.get("struct:field:round-trip") + s.get("struct:method:round-trip") + s.get("struct:return:round-trip"));
+	ctx.floor("structures whose text is not UTF-8 written and parsed back", 1000, s.get("struct:round-trip-of-a-text-that-is-not-utf8"));
+	ctx.floor("object class names turned into descriptors", class_names.len() as u64, s.get("class:object-class-name-to-descriptor"));
+	ctx.floor("array class names turned into descriptors", (STRUCT_DIMS.len() * (8 + class_names.len())) as u64, s.get("class:array-class-name-to-descriptor"));
+	ctx.floor("named constants as documented", 3, consts.get("constants:as-documented"));
 	ctx.floor("names split into parent and inner", 100, sp.get("split:some"));
 	ctx.floor("names without an inner-class split", 100, sp.get("split:none"));
 	ctx.floor("split→join identities", 100, sp.get("split:join-of-split-is-identity"));
+	ctx.floor("split→join identities on names with a lone surrogate", 100, sp.get("split:join-of-split-is-identity:not-utf8"));
 	ctx.floor("join→split identities", 1000, jo.get("join:split-of-join-is-identity"));
+	ctx.floor("join→split identities on names with a lone surrogate", 1000, jo.get("join:split-of-join-is-identity:not-utf8"));
 
 	let mut outcomes: BTreeMap<String, u64> = BTreeMap::new();
 	for k in 0..3 {
 		outcomes.insert(format!("desc:{}:both-accept", PARSERS[k]), all.d_both_accept[k]);
 		outcomes.insert(format!("desc:{}:real-rejects-valid", PARSERS[k]), all.d_ref_only[k]);
 		outcomes.insert(format!("desc:{}:rewritten-identically", PARSERS[k]), all.d_rewritten_same[k]);
+		outcomes.insert(format!("desc:{}:rewritten-identically:not-utf8", PARSERS[k]), all.d_rewritten_same_not_utf8[k]);
 		for w in WHYS {
 			outcomes.insert(format!("desc:{}:both-reject:{}", PARSERS[k], w.name()), all.d_both_reject[k][w as usize]);
 			if all.d_real_only[k][w as usize] > 0 {
@@ -1089,6 +1573,7 @@ fn main() {
 	}
 	for k in 0..7 {
 		outcomes.insert(format!("name:{}:both-accept", NAME_TYPES[k]), all.n_both_accept[k]);
+		outcomes.insert(format!("name:{}:both-accept:not-utf8", NAME_TYPES[k]), all.n_both_accept_not_utf8[k]);
 		outcomes.insert(format!("name:{}:both-reject", NAME_TYPES[k]), all.n_both_reject[k]);
 		outcomes.insert(format!("name:{}:real-accepts-undocumented", NAME_TYPES[k]), all.n_real_only[k]);
 		outcomes.insert(format!("name:{}:real-rejects-documented", NAME_TYPES[k]), all.n_ref_only[k]);
@@ -1099,48 +1584,72 @@ fn main() {
 	outcomes.insert("dimension-boundary:agree".into(), boundary.get("agree").copied().unwrap_or(0));
 	outcomes.insert("dimension-boundary:disagree".into(), boundary.get("disagree").copied().unwrap_or(0));
 
-	let distinct = all.d_both_accept.iter().sum::<u64>() + all.n_both_accept.iter().sum::<u64>() + s.get("struct:field:round-trip") + s.get("struct:method:round-trip") + s.get("struct:return:round-trip") + sp.get("split:some") + jo.get("join:split-of-join-is-identity");
+	let distinct = all.d_both_accept.iter().sum::<u64>() + all.n_both_accept.iter().sum::<u64>() + s.get("struct:field:round-trip") + s.get("struct:method:round-trip") + s.get("struct:return:round-trip") + all.get("split:some") + all.get("join:split-of-join-is-identity");
+	let lone = jstr(&[u32::from(b'L'), u32::from(b'a'), spaces::HIGH, u32::from(b'b'), u32::from(b';')]);
 	let samples: Vec<Value> = vec![
-		sample_desc("(La/b;[D)V"), sample_desc("[[La;"), sample_desc("L;"), sample_desc("L[a;"), sample_desc(&format!("{}B", "[".repeat(256))),
-		sample_name("a/b$a"), sample_name("[La;"), sample_name("[a"), sample_name("<init>"), sample_name("<inix>"),
-		json!({"kind": "structure", "parser": "method", "structure": format!("{:?}", structs.last().map(|x| &x.1)), "printed": structs.last().map(|x| ref_print(&x.1))}),
-		json!({"kind": "split-join", "name": "a/a$a$<", "split": obj("a/a$a$<").and_then(|o| o.split_inner_class_parent_and_name()).map(|(p, i)| (lossy(p.as_inner()), lossy(i.as_inner())))}),
+		sample_desc("(La/b;[D)V".into()), sample_desc("[[La;".into()), sample_desc("L;".into()), sample_desc("L[a;".into()), sample_desc(&spaces::dims_case(256, 0, 0)),
+		sample_desc(&lone), sample_desc(&spaces::long_case("(L?;)V?", &spaces::long_name(3, spaces::FRAKTUR, 0))),
+		sample_name("a/b$a".into()), sample_name("[La;".into()), sample_name("[a".into()), sample_name("<init>".into()), sample_name("<inix>".into()), sample_name(&jstr(&[spaces::LOW, spaces::HIGH])), sample_name("a\\ b".into()),
+		json!({"kind": "structure", "parser": "method", "structure": format!("{:?}", structs.last().map(|x| &x.1)), "printed": structs.last().map(|x| esc(&ref_print(&x.1)))}),
+		sample_split("a/a$a$<".into()), sample_split("a$b/c".into()), sample_split(&jstr(&[spaces::FRAKTUR, u32::from(b'$'), spaces::HIGH])),
 	];
+	let labels = |t: &[spaces::Template]| t.iter().map(|x| x.label).collect::<Vec<_>>();
 	let coverage = json!({
 		"evaluations": all.evals,
 		"distinct_nontrivial": distinct,
-		"rule": "evaluations = calls of real duke functions (parse, write, is_valid, the three TryFroms, split, from_inner_class). distinct_nontrivial = distinct (string, parser) pairs accepted by both the real parser and the grammar + distinct (string, name type) pairs accepted by both + distinct structures that survived write→parse + names split + (parent, inner) pairs joined and split back; every enumerated string is distinct by construction",
+		"rule": "evaluations = calls of real duke functions (parse, write, is_valid, the three TryFroms, split and its two getters, from_inner_class, from_class & co.). distinct_nontrivial = (string, parser) pairs accepted by both the real parser and the grammar + (string, name type) pairs accepted by both + structures that survived write→parse + names split + (parent, inner) pairs joined and split back; the strings of one space are distinct by construction, the spaces overlap in a few short strings",
 		"exhaustive": true,
 		"samples": samples,
 		"bounds": {
-			"descriptor_alphabet": String::from_utf8_lossy(DESC_ALPHABET),
+			"descriptor_alphabet": DESC_ALPHABET,
 			"descriptor_max_len": desc_len,
 			"descriptor_strings": d.strings,
-			"name_alphabet": String::from_utf8_lossy(NAME_ALPHABET),
+			"name_alphabet": NAME_ALPHABET,
 			"name_max_len": name_len,
 			"name_strings": n.strings,
 			"special_name_neighbours": neighbours.len(),
 			"explicit_probes": probes.len(),
-			"structure_class_names": class_names,
+			"wide_descriptor_alphabet": show_alphabet(&wide_desc_alphabet),
+			"wide_descriptor_max_len": wide_desc_len,
+			"wide_descriptor_strings": wd.strings,
+			"wide_name_alphabet": show_alphabet(&wide_name_alphabet),
+			"wide_name_max_len": wide_name_len,
+			"wide_name_strings": wn.strings,
+			"code_points": {"from": 0, "to": spaces::LAST_CODE_POINT, "descriptor_contexts": labels(&desc_templates), "name_contexts": labels(&name_templates), "split_contexts": labels(&split_templates), "strings": cp.strings},
+			"dimension_ladder": {"dimensions": [0, max_dims], "bases": spaces::DIM_BASES, "placements": spaces::DIM_FORMS, "strings": ld.strings, "huge": HUGE_DIMS, "huge_strings": lh.strings},
+			"parameter_ladder": {"parameters": [0, max_params], "units": spaces::PARAM_UNITS, "returns": spaces::PARAM_RETURNS, "strings": lp.strings},
+			"long_names": {"a_repeated": [0, max_long], "wide_character": long_chars.iter().map(|c| format!("U+{c:04X}")).collect::<Vec<_>>(), "placements": ["last", "last but one", "first"], "descriptor_contexts": spaces::LONG_DESC_FORMS, "name_contexts": spaces::LONG_NAME_FORMS, "strings": ll.strings},
+			"structure_class_names": class_names.iter().map(|c| esc(c)).collect::<Vec<_>>(),
 			"structure_dimensions": STRUCT_DIMS,
 			"structure_types": types.len(),
-			"structures": structs.len(),
+			"structure_types_for_two_parameters": pair_types.len(),
+			"structure_types_for_three_parameters": triple_types.len(),
+			"structures": structures,
 			"split_names_max_len": split_len,
-			"split_names": valid_names.iter().filter(|x| x.len() <= split_len).count(),
+			"wide_split_names_max_len": wide_split_len,
+			"split_names": split_names.len(),
 			"join_parent_max_len": parent_len,
 			"join_inner_max_len": inner_len,
-			"join_pairs": outers.len() * inners.len(),
+			"wide_join_parent_max_len": wide_parent_len,
+			"wide_join_inner_max_len": wide_inner_len,
+			"join_pairs": outers.len() * inners.len() + wide_outers.len() * wide_inners.len(),
 		},
 		"outcomes": outcomes,
-		"reference_language_sizes": {"descriptors": count_descriptors(desc_len), "names": count_names(name_len)},
+		"reference_language_sizes": {
+			"descriptors": count_descriptors(&desc_alphabet, desc_len), "names": count_names(&name_alphabet, name_len),
+			"wide_descriptors": count_descriptors(&wide_desc_alphabet, wide_desc_len), "wide_names": count_names(&wide_name_alphabet, wide_name_len),
+		},
 	});
 	ctx.finish(coverage, &[
 		"JVMS §4.3.2/§4.3.3 grammar with the class name inside L…; read per §4.2.1 (non-empty identifiers separated by '/', none containing '.', ';', '[', '/') and at most 255 array dimensions",
-		"the 255-slot limit on method parameters (§4.3.3) is not part of the grammar and is not demanded",
+		"the 255-slot limit on method parameters (§4.3.3) is not part of the grammar: a method descriptor within it (255 slots included) must be read; beyond it the parser may refuse, and if it reads the descriptor, structure and write-back are judged as everywhere",
 		"the documentation of a name type is its doc comment, the text of its check_valid error and the doc comment of the predicate it calls; TODO markers do not narrow what the documentation promises",
-		"characters outside the two alphabets are represented by the explicit probes only (remaining primitives, two non-ASCII names)",
+		"a name is any sequence of code points U+0000..=U+10FFFF including unpaired surrogates (class files carry modified UTF-8; the crate's text type is JavaStr for that reason); every comparison is byte for byte",
+		"Display of a name type is compared only for UTF-8 names; for a name with a lone surrogate only a panic of the formatting machinery would be reported",
+		"FieldDescriptor::from_class / from_obj_class / from_arr_class, ArrClassNameSlice::dimension and ReturnDescriptor::from(FieldDescriptor) are judged against their documentation (L name ; for an object class name, the name itself for an array class name, the number of leading brackets): they are how a name type prints itself as a descriptor",
+		"the split is judged against the doc comments of get_inner_class_name / get_inner_class_parent (last `$` of the last `/`-separated section, both sides non-empty there) and join∘split, split∘join are identities for `$`-free, `/`-free inner names",
 		"FieldDescriptor/MethodDescriptor/ReturnDescriptor::is_valid are not name types and are not judged",
-		"the size of each reference language was confirmed by an independent counting argument",
+		"the size of each reference language over each of the four alphabets was confirmed by an independent counting argument",
 	]);
 }
 
@@ -1149,15 +1658,18 @@ fn replay(ctx: &'static Ctx, path: &std::path::Path) -> ! {
 	let field = |name: &str| -> Option<String> {
 		body.lines().find_map(|l| l.strip_prefix(name).and_then(|r| r.strip_prefix('=')).map(|r| r.to_owned()))
 	};
-	let need = |name: &str| field(name).unwrap_or_else(|| vcore::machinery_fail(&format!("replay file has no {name}= line")));
-	let kind = need("kind");
+	let need = |name: &str| -> JavaString {
+		let raw = field(name).unwrap_or_else(|| vcore::machinery_fail(&format!("replay file has no {name}= line")));
+		unesc(&raw).unwrap_or_else(|| vcore::machinery_fail(&format!("replay file: {name}= is not an escaped string")))
+	};
+	let kind = field("kind").unwrap_or_else(|| vcore::machinery_fail("replay file has no kind= line"));
 	let mut t = Tally::new();
 	let describe = |kind: &str| -> String {
 		match kind {
-			"desc" | "struct" => sample_desc(&need("string")).to_string(),
+			"desc" | "struct" | "class" => sample_desc(&need("string")).to_string(),
 			"name" => sample_name(&need("string")).to_string(),
-			"split" => format!("{:?}", obj(&need("string")).map(|o| vcore::guard(|| o.split_inner_class_parent_and_name().map(|(p, i)| (lossy(p.as_inner()), lossy(i.as_inner())))))),
-			"join" => format!("{:?}", obj(&need("parent")).zip(obj(&need("inner"))).map(|(p, i)| vcore::guard(|| lossy(ObjClassName::from_inner_class(p.to_owned(), i).as_inner())))),
+			"split" => sample_split(&need("string")).to_string(),
+			"join" => format!("{:?}", obj(&need("parent")).zip(obj(&need("inner"))).map(|(p, i)| vcore::guard(|| esc(ObjClassName::from_inner_class(p.to_owned(), i).as_inner())))),
 			other => vcore::machinery_fail(&format!("unknown replay kind {other:?}")),
 		}
 	};
@@ -1170,10 +1682,16 @@ fn replay(ctx: &'static Ctx, path: &std::path::Path) -> ! {
 		"desc" => check_desc(ctx, &mut t, &need("string")),
 		"name" => check_name(ctx, &mut t, &need("string")),
 		"struct" => {
-			let parser = need("parser");
+			let parser = field("parser").unwrap_or_else(|| vcore::machinery_fail("replay file has no parser= line"));
 			let k = PARSERS.iter().position(|p| *p == parser).unwrap_or_else(|| vcore::machinery_fail("unknown parser"));
 			let shape = ref_parse(k, need("string").as_bytes()).unwrap_or_else(|w| vcore::machinery_fail(&format!("structure replay string is not a descriptor: {}", w.name())));
 			check_struct(ctx, &mut t, k, &shape);
+		},
+		"class" => {
+			let shape = ref_parse(FIELD, need("string").as_bytes()).unwrap_or_else(|w| vcore::machinery_fail(&format!("class replay string is not a field descriptor: {}", w.name())));
+			if let Some(r) = &shape.ret {
+				check_class(ctx, &mut t, r);
+			}
 		},
 		"split" => check_split(ctx, &mut t, &need("string")),
 		"join" => check_join(ctx, &mut t, &need("parent"), &need("inner")),
